@@ -20,13 +20,42 @@
     C01_ngap_*                   every NGAP message of the exchange is the TS 38.413 message expected at its step (class,
                                  procedure code), has its mandatory IEs with the assigned criticality, and carries the
                                  AMF-UE-NGAP-ID / RAN-UE-NGAP-ID / NAS-PDU it was given (C13)
-  Partial: the end-to-end composition `C01_accepted_statement` (judge (emulate cfg (dl cfg choices)) = accept) is NOT proved:
-  it needs the templates' `ConfPdu` for all in-range arguments (then `C01_amf_sees_built_pdu` = C04 + C03 gives "the AMF's decoder
-  inverts the encoder on these PDUs") and the NAS parse lemmas threaded through the judge's state machine. The reference AMF is evaluated on every real transcript instead
-  (spec column of the `convo` op), and the clauses above are its per-step obligations. Traffic mode (XDP) is not modelled.
+    C01_*_seen                   for ALL in-range arguments (gNB id of 22..32 bits, AMF-UE-NGAP-ID < 2^40, RAN-UE-NGAP-ID < 2^32,
+                                 3-octet PLMN, any NAS-PDU) the wrapper returns octets and the reference AMF's decoder returns
+                                 exactly the built PDU: the `ConfPdu` / `regular` hypotheses of `C01_amf_sees_built_pdu` are
+                                 discharged by C13's static analysis of the builder skeletons (`C01_builder_seen`)
+    C01_step_*                   the judge's `step` (Spec/Amf.lean) on each of the six uplink messages, in conversation order: NG SETUP
+                                 REQUEST, REGISTRATION REQUEST in INITIAL UE MESSAGE, AUTHENTICATION RESPONSE, SECURITY MODE COMPLETE,
+                                 INITIAL CONTEXT SETUP RESPONSE, REGISTRATION COMPLETE — each raises NO clause (NGAP and NAS) and
+                                 moves the judge's state as the conversation expects
+    C01_subscriber_identified    the judge attributes the SUCI of the emulator's UE j to subscriber j (its own decimal arithmetic =
+                                 the emulator's `%0*d` of IMSI + j; distinct UEs, distinct MSINs)
+    C01_registration_script_accepted / C01_registration_accepted_for_config
+                                 `Spec.Amf.judge … = accept` on the six-message uplink script of NG Setup + one registration, for
+                                 ALL decimal-IMSI configurations (MNC of 2 or 3 digits), gNB ids of 22..32 bits, RAN-UE-NGAP-ID
+                                 < 2^32 and ALL AMF choices (RAND, SQN, AMF field, AMF-UE-NGAP-ID < 2^40), with the SUCI and
+                                 capability the emulator really builds
+    C01_accepted_for_downlink / C01_accepted_partial
+                                 `C01_accepted_statement` for one registration THROUGH `emulate` (Proofs/EmulatorRun.lean executes the
+                                 emulator model symbolically: `manageNGSetup_run`, `registerUE_run`, `emulate_run`):
+                                 judge (emulate cfg dls).uls = accept, given what the emulator READS from the five downlink messages
+  Partial: `C01_accepted_statement` (judge (emulate cfg (dl cfg choices)) = accept for a SPECIFIED downlink function `dl`) is NOT
+  proved as stated. `C01_accepted_for_downlink` proves it for one registration with the downlink side as hypotheses (`DlReads`): the
+  five downlink messages are decodable, the first DOWNLINK NAS TRANSPORT carries the AMF-UE-NGAP-ID of the choice and an
+  Authentication Request from whose AUTN / RAND `DeriveRESstarAndSetKey` obtains the vector's RES* and keys
+  (`C01_keys_of_network_challenge` proves this when the AUTN / RAND read are the network's, from `C01_res_star`). Missing for the full statement: (a) a specification `dl` of the AMF's downlink octets with
+  a proof that they have these properties (NGAP round trip of the AMF-side messages, the NAS decoding of the Authentication
+  Request); (b) more than one UE (the fold is proved for one registration); (c) nothing after registration is covered
+  here (C02). The reference AMF is evaluated on every real transcript (spec column of the `convo` op), and
+  `C01_accepted_witness` evaluates one whole conversation with real crypto in the kernel. Traffic mode (XDP) is not modelled.
 -/
 import Stgutg.Proofs.Emulator
 import Stgutg.Proofs.EmulatorWitness
+import Stgutg.Proofs.BuildersPath
+import Stgutg.Proofs.BuildersJudge
+import Stgutg.Proofs.EmulatorSubscriber
+import Stgutg.Proofs.EmulatorRun
+import Stgutg.Proofs.EmulatorReencode
 import Stgutg.Props.C09
 import Stgutg.Props.C11
 
@@ -267,7 +296,7 @@ theorem C01_ngap_initial_context_setup_response (E : Model.Convert.Ext) (plmn : 
     simpa [amfIe, tInitialContextSetupResponseForRegistraionTest] using this
   · exact Props.C13.C13_carries_ran E _ ht 1 (by decide) plmn _ pdu hsh (.int ran) rfl
 
-/-! ### the end-to-end statement (not proved) -/
+/-! ### what the AMF decodes is what was built -/
 
 /-- **C01_amf_sees_built_pdu.** "The AMF's decoder inverts the encoder on this PDU", from the composite APER round trip
     (C04) and the canonical-encoding theorem (C03): whenever the PDU a wrapper hands to `ngap.Encoder` is within its
@@ -275,7 +304,7 @@ theorem C01_ngap_initial_context_setup_response (E : Model.Convert.Ext) (plmn : 
     the NAS-PDU and every open-type content shorter than 16384 octets) and regular, the reference AMF decodes the octets on
     the wire to exactly that PDU. Every C13 fact above (`C01_ngap_*`) is then a fact about what the AMF sees. The two
     hypotheses are decidable predicates on the value; that the builder templates satisfy them for ALL in-range arguments is
-    not proved here (it is evaluated on every PDU of the witness and of every real transcript by the judge itself). -/
+    `C01_builder_seen` below (from C13's `skeleton_table` + `tmOK_sound`). -/
 theorem C01_amf_sees_built_pdu (v : Aper.Val) (b : Bytes)
     (hc : Props.C04.ConfPdu Spec.Amf.ngapFuel v)
     (hr : Proofs.AperSpec.regular Gen.Ngap.schema Spec.Amf.ngapFuel (.struct Gen.Ngap.pduId) false v = true)
@@ -287,6 +316,900 @@ set_option maxRecDepth 1000000 in
 example : Props.C04.ConfPdu Spec.Amf.ngapFuel Props.C04.ngSetupRequest ∧
     Proofs.AperSpec.regular Gen.Ngap.schema Spec.Amf.ngapFuel (.struct Gen.Ngap.pduId) false Props.C04.ngSetupRequest = true :=
   ⟨Props.C04.ngSetupRequest_conf, by decide +kernel⟩
+
+/-! ### the `ConfPdu` / `regular` hypotheses discharged from the argument ranges (C13: `InRange`) -/
+
+open Stgutg.Proofs.BuildersRange Stgutg.Proofs.BuildersRoles Stgutg.Proofs.BuildersPath in
+/-- **C01_builder_seen.** For every builder of the table and all in-range arguments (`InRange true`, C13), the builder
+    returns a PDU, `ngap.Encoder` returns octets, and the reference AMF decodes these octets to exactly that PDU: the
+    `ConfPdu` and `regular` hypotheses of `C01_amf_sees_built_pdu` follow from the static analysis of the builder's
+    skeleton (`Props.C13.skeleton_table`) and the ranges of the arguments. -/
+theorem C01_builder_seen (E : Model.Convert.Ext) (t : Template) (ht : t ∈ Proofs.Builders.allTable) (plmn : Bytes)
+    (args : List Aper.Val) (h : InRange true E t plmn args)
+    (hnc : Props.C13.NonCanonicalConst t = false) :
+    ∃ pdu b, build E t plmn args = .ok pdu ∧ encodePdu pdu = .ok b ∧ Spec.Amf.decodeNgap b = some pdu := by
+  obtain ⟨c, tm, hsel, hout, hob⟩ := h
+  have hsk : skOK true tm = true := by
+    rcases (Props.C13.skeleton_facts t ht c (selected_mem E t plmn args c hsel) tm hout).1.2 with h2 | h2
+    · exact h2
+    · rw [hnc] at h2; cases h2
+  obtain ⟨hb, hv⟩ := selected_builds true E t plmn args c tm hsel hout hsk hob
+  obtain ⟨b, h1, _⟩ := okV_pdu_encodes true _ hv
+  refine ⟨_, b, hb, h1, ?_⟩
+  apply amf_sees_built_pdu _ b ?_ ?_ h1
+  · rw [← fuel_eq]; exact Proofs.BuildersOk.okV_conf _ _ _ _ _ hv
+  · rw [← fuel_eq]; exact Proofs.BuildersOk.okV_regular _ _ _ _ _ _ _ hv
+
+open Stgutg.Proofs.BuildersRange Stgutg.Proofs.BuildersRoles Stgutg.Proofs.BuildersPath in
+/-- **C01_ng_setup_request_seen.** UL1, for every configuration with a gNB id of `bitlength` = 22..32 bits held in
+    ⌈bitlength/8⌉ octets (unused bits clear), a PLMN of 3 octets (what `C01_plmn` gives) and a non-empty gNB name:
+    `GetNGSetupRequest` returns octets, the reference AMF decodes them to the PDU the wrapper built, and that PDU is NG SETUP
+    REQUEST with its mandatory IEs, the configured name and gNB id. -/
+theorem C01_ng_setup_request_seen (E : Model.Convert.Ext) (plmn g m name : Bytes) (bl : Int)
+    (hm : m.length = 3) (h22 : 22 ≤ bl) (h32 : bl ≤ 32) (hg : g.length = (bl.toNat + 7) / 8)
+    (hc : Canonical g bl.toNat) (hname : 1 ≤ name.length) :
+    ∃ pdu b, Wrapper.run E .GetNGSetupRequest plmn [.octs g, .octs m, .int bl, .str name] = .ok (.ok b) ∧
+      Spec.Amf.decodeNgap b = some pdu ∧ IsMessage pdu .NGSetupRequest ∧
+      (∃ v, ieValuesById pdu (ieRANNodeName : Int) = some [some v] ∧ Val.at [0] v = some (.str name)) ∧
+      (∃ v, ieValuesById pdu (ieGlobalRANNodeID : Int) = some [some v] ∧ Val.at [1, 0, 1, 1, 0] v = some (.bits g bl.toNat)) := by
+  have ht : tGetNGSetupRequest ∈ Proofs.Builders.allTable := List.mem_append_right _ (by simp)
+  obtain ⟨pdu, b, hb, he, hd⟩ := C01_builder_seen E _ ht plmn _
+    (inRange_ngSetupRequest E plmn g m name bl hm h22 h32 hg hc hname) rfl
+  have hsh := Proofs.Builders.build_shaped E _ plmn _ pdu hb
+  refine ⟨pdu, b, ?_, hd, isMessage_of_shaped E _ ht plmn _ pdu hsh, ?_, ?_⟩
+  · unfold Wrapper.run
+    rw [ngsetup_wrapper_eq, hb]
+    simp only [he]
+  · exact Props.C13.C13_carries_name E _ ht 3 (by decide) plmn _ pdu hsh (.str name) rfl
+  · exact Props.C13.C13_carries_gnbid_ngsetup E _ ht 0 2 (by decide) (by decide) plmn _ pdu hsh (.octs g) (.int bl) rfl rfl
+
+open Stgutg.Proofs.BuildersRange Stgutg.Proofs.BuildersRoles Stgutg.Proofs.BuildersPath in
+/-- **C01_initial_ue_message_seen.** UL2, for every RAN-UE-NGAP-ID in 0..2^32−1, every NAS-PDU and every announced 3-octet
+    PLMN: `GetInitialUEMessage(ran, nas, "")` returns octets which the reference AMF decodes to INITIAL UE MESSAGE with its
+    mandatory IEs, that RAN-UE-NGAP-ID and that NAS-PDU. -/
+theorem C01_initial_ue_message_seen (E : Model.Convert.Ext) (plmn : Bytes) (hplmn : plmn.length = 3) (ran : Int) (nas : Bytes)
+    (hr0 : 0 ≤ ran) (hr1 : ran < 2 ^ 32) :
+    ∃ pdu b, Wrapper.run E .GetInitialUEMessage plmn [.int ran, .octs nas, .str []] = .ok (.ok b) ∧
+      Spec.Amf.decodeNgap b = some pdu ∧ IsMessage pdu .InitialUEMessage ∧
+      (∃ v, ieValuesById pdu (ieRANUENGAPID : Int) = some [some v] ∧ Val.at [0] v = some (.int ran)) ∧
+      (∃ v, ieValuesById pdu (ieNASPDU : Int) = some [some v] ∧ Val.at [0] v = some (.octs nas)) := by
+  have ht : tInitialUEMessage ∈ Proofs.Builders.allTable := mem_allTable_hand (by simp [handTable])
+  obtain ⟨pdu, b, hb, he, hd⟩ := C01_builder_seen E _ ht plmn _
+    (inRange_initialUEMessage E plmn hplmn ran nas hr0 hr1) rfl
+  have hw : Wrapper.pdu E .GetInitialUEMessage plmn [.int ran, .octs nas, .str []] = .ok pdu := hb
+  obtain ⟨h1, h2, h3⟩ := C01_ngap_initial_ue_message E plmn ran nas pdu hw
+  exact ⟨pdu, b, by unfold Wrapper.run; rw [hw]; simp only [he], hd, h1, h2, h3⟩
+
+open Stgutg.Proofs.BuildersRange Stgutg.Proofs.BuildersRoles Stgutg.Proofs.BuildersPath in
+/-- **C01_uplink_nas_transport_seen.** UL3, UL4, UL6, for every AMF-UE-NGAP-ID the AMF may assign (0..2^40−1), every
+    RAN-UE-NGAP-ID in 0..2^32−1 and every NAS-PDU: `GetUplinkNASTransport` returns octets which the reference AMF decodes
+    to UPLINK NAS TRANSPORT with its mandatory IEs and exactly these three values. -/
+theorem C01_uplink_nas_transport_seen (E : Model.Convert.Ext) (plmn : Bytes) (hplmn : plmn.length = 3) (amf ran : Int)
+    (nas : Bytes) (ha0 : 0 ≤ amf) (ha1 : amf < 2 ^ 40) (hr0 : 0 ≤ ran) (hr1 : ran < 2 ^ 32) :
+    ∃ pdu b, Wrapper.run E .GetUplinkNASTransport plmn [.int amf, .int ran, .octs nas] = .ok (.ok b) ∧
+      Spec.Amf.decodeNgap b = some pdu ∧ IsMessage pdu .UplinkNASTransport ∧
+      (∃ v, ieValuesById pdu (ieAMFUENGAPID : Int) = some [some v] ∧ Val.at [0] v = some (.int amf)) ∧
+      (∃ v, ieValuesById pdu (ieRANUENGAPID : Int) = some [some v] ∧ Val.at [0] v = some (.int ran)) ∧
+      (∃ v, ieValuesById pdu (ieNASPDU : Int) = some [some v] ∧ Val.at [0] v = some (.octs nas)) := by
+  have ht : tUplinkNasTransport ∈ Proofs.Builders.allTable := mem_allTable_hand (by simp [handTable])
+  obtain ⟨pdu, b, hb, he, hd⟩ := C01_builder_seen E _ ht plmn _
+    (inRange_uplinkNasTransport E plmn hplmn amf ran nas ha0 ha1 hr0 hr1) rfl
+  have hw : Wrapper.pdu E .GetUplinkNASTransport plmn [.int amf, .int ran, .octs nas] = .ok pdu := hb
+  obtain ⟨h1, h2, h3, h4⟩ := C01_ngap_uplink_nas_transport E plmn amf ran nas pdu hw
+  exact ⟨pdu, b, by unfold Wrapper.run; rw [hw]; simp only [he], hd, h1, h2, h3, h4⟩
+
+open Stgutg.Proofs.BuildersRange Stgutg.Proofs.BuildersRoles Stgutg.Proofs.BuildersPath in
+/-- **C01_initial_context_setup_response_seen.** UL5. -/
+theorem C01_initial_context_setup_response_seen (E : Model.Convert.Ext) (plmn : Bytes) (hplmn : plmn.length = 3)
+    (amf ran : Int) (ha0 : 0 ≤ amf) (ha1 : amf < 2 ^ 40) (hr0 : 0 ≤ ran) (hr1 : ran < 2 ^ 32) :
+    ∃ pdu b, Wrapper.run E .GetInitialContextSetupResponse plmn [.int amf, .int ran] = .ok (.ok b) ∧
+      Spec.Amf.decodeNgap b = some pdu ∧ IsMessage pdu .InitialContextSetupResponse ∧
+      (∃ v, ieValuesById pdu (ieAMFUENGAPID : Int) = some [some v] ∧ Val.at [0] v = some (.int amf)) ∧
+      (∃ v, ieValuesById pdu (ieRANUENGAPID : Int) = some [some v] ∧ Val.at [0] v = some (.int ran)) := by
+  have ht : tInitialContextSetupResponseForRegistraionTest ∈ Proofs.Builders.allTable := mem_allTable_hand (by simp [handTable])
+  obtain ⟨pdu, b, hb, he, hd⟩ := C01_builder_seen E _ ht plmn _
+    (inRange_initialContextSetupResponse E plmn hplmn amf ran ha0 ha1 hr0 hr1) rfl
+  have hw : Wrapper.pdu E .GetInitialContextSetupResponse plmn [.int amf, .int ran] = .ok pdu := hb
+  obtain ⟨h1, h2, h3⟩ := C01_ngap_initial_context_setup_response E plmn amf ran pdu hw
+  exact ⟨pdu, b, by unfold Wrapper.run; rw [hw]; simp only [he], hd, h1, h2, h3⟩
+
+/-! ### the reference AMF's `step` on the uplink messages of the exchange (Spec/Amf.lean), in conversation order
+
+  Each theorem: for ALL configurations / AMF choices in the stated ranges, the octets the emulator's wrapper returns make the
+  judge's `step` raise no clause and move its state as the conversation expects. Together they are the per-message
+  obligations of `C01_accepted_statement`; what is not threaded yet is listed at `C01_accepted_statement`. -/
+
+open Stgutg.Proofs.BuildersJudge Stgutg.Proofs.BuildersRoles in
+/-- **C01_step_ng_setup_request.** UL1: on the NG SETUP REQUEST `ManageNGSetup` sends (gNB id of 22..32 bits, non-empty
+    name, the 3-octet PLMN `m` of the configuration: `C01_plmn`), an AMF configured with that PLMN that has not seen an NG Setup
+    on the association raises no clause and records the setup. -/
+theorem C01_step_ng_setup_request (P : Prims) (cfg : Spec.Amf.Cfg) (chs : List Spec.Amf.Choice) (s : Spec.Amf.St) (k : Nat)
+    (E : Model.Convert.Ext) (plmn g m name : Bytes) (bl : Int)
+    (hm : m.length = 3) (h22 : 22 ≤ bl) (h32 : bl ≤ 32) (hg : g.length = (bl.toNat + 7) / 8)
+    (hc : Canonical g bl.toNat) (hname : 1 ≤ name.length)
+    (hcfg : Spec.Amf.plmnOf cfg = some m) (hfirst : s.ngSetup = false) :
+    ∃ b, Wrapper.run E .GetNGSetupRequest plmn [.octs g, .octs m, .int bl, .str name] = .ok (.ok b) ∧
+      Spec.Amf.step P cfg chs s k b = { s with ngSetup := true } := by
+  obtain ⟨pdu, b, hw, hd, f1, f2, f3, f4⟩ := ngSetupRequest_wire E plmn g m name bl hm h22 h32 hg hc hname
+  exact ⟨b, hw, step_ngSetupRequest P cfg chs s k b pdu m hd f1 f2 f3 f4 hcfg hfirst⟩
+
+open Stgutg.Proofs.BuildersJudge in
+/-- **C01_step_initial_ue_message.** UL2, NGAP layer: after NG Setup the INITIAL UE MESSAGE carrying a plain Registration
+    Request `nas` raises no NGAP clause (decodable, expected message, mandatory IEs) and the judge goes on with
+    `onRegistrationRequest` on exactly the RAN-UE-NGAP-ID and NAS-PDU the emulator passed. -/
+theorem C01_step_initial_ue_message (P : Prims) (cfg : Spec.Amf.Cfg) (chs : List Spec.Amf.Choice) (s : Spec.Amf.St) (k : Nat)
+    (E : Model.Convert.Ext) (plmn : Bytes) (hplmn : plmn.length = 3) (ran : Int) (nas : Bytes)
+    (hr0 : 0 ≤ ran) (hr1 : ran < 2 ^ 32) (hsetup : s.ngSetup = true)
+    (hplain : Spec.Amf.byteAt nas 1 % 16 = 0) (hty : Spec.Amf.byteAt nas 2 = 0x41) :
+    ∃ pdu b, Wrapper.run E .GetInitialUEMessage plmn [.int ran, .octs nas, .str []] = .ok (.ok b) ∧
+      Spec.Amf.ieInt pdu ieRANUENGAPID = some ran ∧
+      Spec.Amf.step P cfg chs s k b = Spec.Amf.onRegistrationRequest P cfg chs s k pdu nas := by
+  obtain ⟨pdu, b, hw, hd, f1, f2, f3, f4, f5⟩ := initialUEMessage_wire E plmn hplmn ran nas hr0 hr1
+  exact ⟨pdu, b, hw, f4, step_initialUEMessage P cfg chs s k b pdu nas hd f1 f2 f3 f5 hsetup hplain hty⟩
+
+open Stgutg.Proofs.BuildersJudge in
+/-- **C01_step_uplink_nas_transport.** UL3, UL4, UL6, NGAP layer: UPLINK NAS TRANSPORT from the UE the AMF knows under this
+    RAN-UE-NGAP-ID, with the AMF-UE-NGAP-ID the AMF assigned (any value in 0..2^40−1): no NGAP clause (decodable, expected
+    message, mandatory IEs, both identifiers as assigned); the NAS-PDU goes to the plain / protected NAS handler unchanged. -/
+theorem C01_step_uplink_nas_transport (P : Prims) (cfg : Spec.Amf.Cfg) (chs : List Spec.Amf.Choice) (s : Spec.Amf.St) (k : Nat)
+    (E : Model.Convert.Ext) (plmn : Bytes) (hplmn : plmn.length = 3) (ran : Int) (nas : Bytes)
+    (hr0 : 0 ≤ ran) (hr1 : ran < 2 ^ 32)
+    (u : Spec.Amf.UeSt) (hu : s.ues.find? (·.ran == ran) = some u) (ha1 : u.ch.amfUeNgapId < 2 ^ 40) :
+    ∃ b, Wrapper.run E .GetUplinkNASTransport plmn [.int u.ch.amfUeNgapId, .int ran, .octs nas] = .ok (.ok b) ∧
+      Spec.Amf.step P cfg chs s k b =
+        if Spec.Amf.byteAt nas 1 % 16 == 0 then Spec.Amf.onPlainUplink s k u nas
+        else Spec.Amf.onProtectedUplink P cfg s k u false nas := by
+  obtain ⟨pdu, b, hw, hd, f1, f2, f3, f4, f5, f6⟩ := uplinkNasTransport_wire E plmn hplmn (u.ch.amfUeNgapId : Int) ran nas
+    (by omega) (by exact_mod_cast ha1) hr0 hr1
+  exact ⟨b, hw, step_uplinkNasTransport P cfg chs s k b pdu _ ran nas hd f1 f2 f3 f4 f5 f6 u hu rfl⟩
+
+open Stgutg.Proofs.BuildersJudge in
+/-- **C01_step_initial_context_setup_response.** UL5: INITIAL CONTEXT SETUP RESPONSE with the assigned identifiers from a UE
+    whose INITIAL CONTEXT SETUP REQUEST is outstanding: no clause; the response is recorded (the UE is REGISTERED once
+    Registration Complete has been seen as well). -/
+theorem C01_step_initial_context_setup_response (P : Prims) (cfg : Spec.Amf.Cfg) (chs : List Spec.Amf.Choice) (s : Spec.Amf.St)
+    (k : Nat) (E : Model.Convert.Ext) (plmn : Bytes) (hplmn : plmn.length = 3) (ran : Int) (hr0 : 0 ≤ ran) (hr1 : ran < 2 ^ 32)
+    (u : Spec.Amf.UeSt) (hu : s.ues.find? (·.ran == ran) = some u) (ha1 : u.ch.amfUeNgapId < 2 ^ 40)
+    (hsvc : u.svcPending = false) (c : Bool) (hreg : u.reg = .ctxSetup false c) :
+    ∃ b, Wrapper.run E .GetInitialContextSetupResponse plmn [.int u.ch.amfUeNgapId, .int ran] = .ok (.ok b) ∧
+      Spec.Amf.step P cfg chs s k b = s.setUe { u with reg := if c then .registered else .ctxSetup true c } := by
+  obtain ⟨pdu, b, hw, hd, f1, f2, f3, f4, f5⟩ := initialContextSetupResponse_wire E plmn hplmn (u.ch.amfUeNgapId : Int) ran
+    (by omega) (by exact_mod_cast ha1) hr0 hr1
+  exact ⟨b, hw, step_initialContextSetupResponse P cfg chs s k b pdu _ ran hd f1 f2 f3 f4 f5 u hu rfl hsvc c hreg⟩
+
+set_option maxRecDepth 100000 in
+theorem wire_authenticationResponse_mand :
+    (Props.C09.wireOf Gen.Nas.layout_AuthenticationResponse).map (·.mand) = some [.v 1, .v 1, .v 1] := by decide +kernel
+
+open Stgutg.Proofs.BuildersJudge in
+/-- **C01_step_authentication_response.** UL3 complete: UPLINK NAS TRANSPORT carrying the AUTHENTICATION RESPONSE built from
+    a 16-octet RES* equal to the XRES* of the network's vector (`C01_res_star`), from the UE in state "authentication request
+    sent": the judge's `step` raises NO clause — NGAP and NAS — and moves the UE to "security mode command sent". -/
+theorem C01_step_authentication_response (P : Prims) (cfg : Spec.Amf.Cfg) (chs : List Spec.Amf.Choice) (s : Spec.Amf.St) (k : Nat)
+    (E : Model.Convert.Ext) (plmn : Bytes) (hplmn : plmn.length = 3) (ran : Int) (hr0 : 0 ≤ ran) (hr1 : ran < 2 ^ 32)
+    (u : Spec.Amf.UeSt) (hu : s.ues.find? (·.ran == ran) = some u) (ha1 : u.ch.amfUeNgapId < 2 ^ 40)
+    (resStar : Bytes) (h16 : resStar.length = 16) (hreg : u.reg = .authSent) (hres : resStar = u.aka.resStar) :
+    ∃ nas b, Nas.Ctor.encodeWith Gen.Nas.layout_AuthenticationResponse (Nas.Ctor.authenticationResponse resStar []) = .ok nas ∧
+      Wrapper.run E .GetUplinkNASTransport plmn [.int u.ch.amfUeNgapId, .int ran, .octs nas] = .ok (.ok b) ∧
+      Spec.Amf.step P cfg chs s k b = s.setUe { u with reg := .smcSent } := by
+  obtain ⟨nas, henc, hplainStep⟩ := C01_authentication_response_accepted s k u resStar h16 hreg hres
+  obtain ⟨w, nas', hw, henc', hparse⟩ := Props.C09.C09_ctor_authenticationResponse resStar [] (.inl h16)
+  rw [henc] at henc'
+  cases henc'
+  have hmand : w.mand = [.v 1, .v 1, .v 1] := by
+    have := wire_authenticationResponse_mand
+    rw [hw] at this
+    simpa using this
+  obtain ⟨_, hb1, _⟩ := parse_header w nas _ [] hmand hparse 0x7E 0x00 0x57 [] rfl
+  obtain ⟨b, hrun, hstep⟩ := C01_step_uplink_nas_transport P cfg chs s k E plmn hplmn ran nas hr0 hr1 u hu ha1
+  refine ⟨nas, b, henc, hrun, ?_⟩
+  rw [hstep, hb1]
+  simp only [UInt8.toNat_ofNat, Nat.zero_mod, beq_self_eq_true, if_true]
+  exact hplainStep
+
+theorem table_registrationComplete :
+    Spec.Ts24501.tableByName "RegistrationComplete" = some Spec.Ts24501.registrationComplete := by rfl
+
+set_option maxRecDepth 100000 in
+theorem wire_registrationComplete_mand :
+    (Props.C09.wireOf Gen.Nas.layout_RegistrationComplete).map (·.mand) = some [.v 1, .v 1, .v 1] := by decide +kernel
+
+/-- the judge's protected-NAS handler on an accepted REGISTRATION COMPLETE -/
+theorem onProtected_registrationComplete (P : Prims) (cfg : Spec.Amf.Cfg) (s : Spec.Amf.St) (k : Nat) (u : Spec.Amf.UeSt)
+    (nas rc : Bytes) (c : Nat) (ics cflag : Bool) (hsht : Spec.Amf.byteAt nas 1 = 2) (hreg : u.reg = .ctxSetup ics cflag)
+    (hrul : Spec.Amf.receiveUl P u true [2] nas = .ok (rc, c))
+    (hb0 : Spec.Amf.byteAt rc 0 = 0x7E) (hb1 : Spec.Amf.byteAt rc 1 = 0) (hb2 : Spec.Amf.byteAt rc 2 = 0x43)
+    (hparse : (Spec.Amf.parseNas Spec.Ts24501.registrationComplete rc).isSome = true) :
+    Spec.Amf.onProtectedUplink P cfg s k u false nas =
+      s.setUe { Spec.Amf.accepted u 2 c with reg := if ics then .registered else .ctxSetup ics true } := by
+  have hsmc : (Spec.Amf.Reg.ctxSetup ics cflag == Spec.Amf.Reg.smcSent) = false := by cases ics <;> cases cflag <;> rfl
+  have haccreg : (Spec.Amf.accepted u 2 c).reg = .ctxSetup ics cflag := by
+    simp [Spec.Amf.accepted, Spec.NasSecurity.newContext, hreg]
+  unfold Spec.Amf.onProtectedUplink
+  simp only [hsht, hreg, hsmc, Bool.false_eq_true, if_false, hrul, hb0, hb1, hb2, hparse, if_true]
+  simp [haccreg]
+
+open Stgutg.Proofs.BuildersJudge in
+/-- **C01_step_registration_complete.** UL6 complete: the REGISTRATION COMPLETE the emulator builds, protected by
+    `EncodeNasPduWithSecurity(ue, rc, 2, true, false)` under the keys of the network's vector (`InStep`) and the UL NAS COUNT
+    one above the last the AMF accepted (`C01_registration_protected`: 1 after Security Mode Complete's 0), sent in UPLINK NAS
+    TRANSPORT with the assigned identifiers by a UE whose INITIAL CONTEXT SETUP REQUEST was sent: the judge's `step` raises NO
+    clause — NGAP, security header type 2, NAS COUNT = previous + 1 and never used, MAC, the plain message parses as
+    REGISTRATION COMPLETE — accepts the COUNT and marks Registration Complete seen (REGISTERED when the INITIAL CONTEXT SETUP
+    RESPONSE was seen before, as in the emulator's order). -/
+theorem C01_step_registration_complete (P : Prims) (hP : PrimsOk P) (cfg : Spec.Amf.Cfg) (chs : List Spec.Amf.Choice)
+    (s : Spec.Amf.St) (k : Nat) (E : Model.Convert.Ext) (plmn : Bytes) (hplmn : plmn.length = 3) (ran : Int)
+    (hr0 : 0 ≤ ran) (hr1 : ran < 2 ^ 32)
+    (u : Spec.Amf.UeSt) (hu : s.ues.find? (·.ran == ran) = some u) (ha1 : u.ch.amfUeNgapId < 2 ^ 40)
+    (sec : UeSec) (hin : InStep sec u) (l : Nat) (hlast : u.last = some l) (hcnt : cval sec.ulCount = l + 1)
+    (hused : u.used.contains (l + 1) = false) (ics cflag : Bool) (hreg : u.reg = .ctxSetup ics cflag) :
+    ∃ rc o2 b, Nas.Ctor.encodeWith Gen.Nas.layout_RegistrationComplete (Nas.Ctor.registrationComplete none) = .ok rc ∧
+      (Model.NasProtect.encodeNasPduWithSecurity P sec rc 2 true false).2 = .ok o2 ∧
+      Wrapper.run E .GetUplinkNASTransport plmn [.int u.ch.amfUeNgapId, .int ran, .octs o2] = .ok (.ok b) ∧
+      Spec.Amf.step P cfg chs s k b =
+        s.setUe { Spec.Amf.accepted u 2 (l + 1) with reg := if ics then .registered else .ctxSetup ics true } := by
+  obtain ⟨w, rc, hw, henc, hparse⟩ := Props.C09.C09_ctor_registrationComplete none (by simp)
+  have hmand : w.mand = [.v 1, .v 1, .v 1] := by
+    have := wire_registrationComplete_mand
+    rw [hw] at this
+    simpa using this
+  obtain ⟨hb0, hb1, hb2⟩ := parse_header w rc _ [] hmand hparse 0x7E 0x00 0x43 [] rfl
+  have hw' : Spec.Ts24501.registrationComplete.wire = some w := by
+    unfold Props.C09.wireOf at hw
+    have : Gen.Nas.layout_RegistrationComplete.name = "RegistrationComplete" := rfl
+    rw [this, table_registrationComplete] at hw
+    exact hw
+  obtain ⟨o2, ho2, b1, b6, hrecv, _, _⟩ := protected_step P hP sec u hin rc 2 false rfl
+  simp only [Bool.false_eq_true, if_false] at b6 hrecv
+  rw [hcnt] at b6 hrecv
+  have hb1' : Spec.Amf.byteAt o2 1 = 2 := b1
+  have hrul : Spec.Amf.receiveUl P u true [2] o2 = .ok (rc, l + 1) := by
+    apply receiveUl_of_receive P u true [2] o2 rc (l + 1)
+    · rw [hb1']; rfl
+    · rw [hb1']; simp [Spec.Amf.expectedCount, Spec.NasSecurity.newContext, hlast]
+    · rw [hb1']; simp [Spec.Amf.fresh, Spec.NasSecurity.newContext, hlast]; simpa using hused
+    · exact hrecv
+  obtain ⟨b, hrun, hstep⟩ := C01_step_uplink_nas_transport P cfg chs s k E plmn hplmn ran o2 hr0 hr1 u hu ha1
+  refine ⟨rc, o2, b, henc, ho2, hrun, ?_⟩
+  rw [hstep, hb1']
+  have hparse' : (Spec.Amf.parseNas Spec.Ts24501.registrationComplete rc).isSome = true := by
+    unfold Spec.Amf.parseNas
+    rw [hw']
+    simp [hparse]
+  simp only [show ((2 : Nat) % 16 == 0) = false from rfl, Bool.false_eq_true, if_false]
+  exact onProtected_registrationComplete P cfg s k u o2 rc (l + 1) ics cflag hb1' hreg hrul hb0 hb1 hb2 hparse'
+
+theorem table_registrationRequest :
+    Spec.Ts24501.tableByName "RegistrationRequest" = some Spec.Ts24501.registrationRequest := by rfl
+
+theorem table_securityModeComplete :
+    Spec.Ts24501.tableByName "SecurityModeComplete" = some Spec.Ts24501.securityModeComplete := by rfl
+
+set_option maxRecDepth 100000 in
+theorem wire_heads :
+    (Props.C09.wireOf Gen.Nas.layout_RegistrationRequest).map (·.mand.take 3) = some [.v 1, .v 1, .v 1] ∧
+    (Props.C09.wireOf Gen.Nas.layout_SecurityModeComplete).map (·.mand.take 3) = some [.v 1, .v 1, .v 1] := by decide +kernel
+
+/-- the judge's handler on a parsed plain REGISTRATION REQUEST: with the subscriber identified from the SUCI, a choice and
+    vector for it, no reuse of SUPI / RAN-UE-NGAP-ID, and a security capability announcing the selected algorithms, no clause
+    is raised and the UE's state is opened -/
+theorem onRegistrationRequest_ok (P : Prims) (cfg : Spec.Amf.Cfg) (chs : List Spec.Amf.Choice) (s : Spec.Amf.St) (k : Nat)
+    (pdu : Aper.Val) (nas suci cap : Bytes) (ran : Int) (w : Spec.Ts24501.Wire)
+    (hw : Spec.Ts24501.registrationRequest.wire = some w) (o10 : Option Bytes)
+    (hparse : Spec.Ts24501.parse w nas = some (Spec.Ts24501.Intended.registrationRequest 1 suci none (some cap) o10 none none))
+    (hran : Spec.Amf.ieInt pdu ieRANUENGAPID = some ran)
+    (j : Nat) (ch : Spec.Amf.Choice) (aka : Spec.Ts33501A.Aka) (hsub : Spec.Amf.subscriberOf cfg suci = some j)
+    (hch : chs[j]? = some ch) (hvec : Spec.Amf.vector P cfg j ch = some aka)
+    (hnew : s.ues.any (·.j == j) = false) (hnewran : s.ues.any (·.ran == ran) = false)
+    (hea : Spec.Identity.eaSupported cap Spec.Amf.selectedEa = true) (hia : Spec.Identity.iaSupported cap Spec.Amf.selectedIa = true) :
+    Spec.Amf.onRegistrationRequest P cfg chs s k pdu nas =
+      { s with ues := s.ues ++ [{ j := j, ran := ran, ch := ch, aka := aka }] } := by
+  unfold Spec.Amf.onRegistrationRequest Spec.Amf.parseNas
+  rw [hw]
+  simp only [Option.bind_some, hparse]
+  have hopt : Spec.Amf.optIE (Spec.Ts24501.Intended.registrationRequest 1 suci none (some cap) o10 none none) 0x2E = some cap := by
+    cases o10 <;> simp [Spec.Amf.optIE, Spec.Ts24501.Intended.registrationRequest, Spec.Ts24501.Intended.present]
+  simp [Spec.Ts24501.Intended.registrationRequest, hsub, hch, hran, hvec, hnew, hnewran] at hopt ⊢
+  simp [hopt, hea, hia]
+
+open Stgutg.Proofs.BuildersJudge in
+/-- **C01_step_registration_request.** UL2 complete, given that the reference AMF identifies subscriber `j` from the SUCI
+    (`hsub`; C01_suci states the SUCI's content for every configuration — carrying it into the reference AMF's own decimal
+    arithmetic is the part not done): the INITIAL UE MESSAGE with the REGISTRATION REQUEST the emulator builds (registration
+    type 1, the SUCI `mi`, the UE security capability `secCap`) raises NO clause in the judge's `step` — NGAP and NAS — and opens
+    the UE's state with the RAN-UE-NGAP-ID it carries. -/
+theorem C01_step_registration_request (P : Prims) (cfg : Spec.Amf.Cfg) (chs : List Spec.Amf.Choice) (s : Spec.Amf.St) (k : Nat)
+    (E : Model.Convert.Ext) (plmn : Bytes) (hplmn : plmn.length = 3) (ran : Int) (hr0 : 0 ≤ ran) (hr1 : ran < 2 ^ 32)
+    (hsetup : s.ngSetup = true) (mi secCap : Nas.Val)
+    (hmi : mi.iei = 0 ∧ mi.len = mi.data.length ∧ mi.data.length < 65536)
+    (hsc : secCap.iei = 0x2E ∧ secCap.len = secCap.data.length ∧ secCap.data.length < 256)
+    (hea : Spec.Identity.eaSupported secCap.data Spec.Amf.selectedEa = true)
+    (hia : Spec.Identity.iaSupported secCap.data Spec.Amf.selectedIa = true)
+    (j : Nat) (ch : Spec.Amf.Choice) (aka : Spec.Ts33501A.Aka) (hsub : Spec.Amf.subscriberOf cfg mi.data = some j)
+    (hch : chs[j]? = some ch) (hvec : Spec.Amf.vector P cfg j ch = some aka)
+    (hnew : s.ues.any (·.j == j) = false) (hnewran : s.ues.any (·.ran == ran) = false) :
+    ∃ nas b, Nas.Ctor.encodeWith Gen.Nas.layout_RegistrationRequest
+        (Nas.Ctor.registrationRequest 1 mi none (some secCap) none none none) = .ok nas ∧
+      Wrapper.run E .GetInitialUEMessage plmn [.int ran, .octs nas, .str []] = .ok (.ok b) ∧
+      Spec.Amf.step P cfg chs s k b = { s with ues := s.ues ++ [{ j := j, ran := ran, ch := ch, aka := aka }] } := by
+  obtain ⟨w, nas, hw, henc, hparse⟩ := Props.C09.C09_ctor_registrationRequest 1 mi none (some secCap) none none none
+    (by decide) hmi (by intro x hx; cases hx) (by intro x hx; cases hx; exact hsc) (by intro x hx; cases hx)
+    (by intro x hx; cases hx) (by intro c hc; cases hc)
+  have hhead : w.mand.take 3 = [.v 1, .v 1, .v 1] := by
+    have := wire_heads.1
+    rw [hw] at this
+    simpa using this
+  obtain ⟨_, hb1, hb2⟩ := parse_header' w nas _ hhead hparse 0x7E 0x00 0x41 _ rfl
+  have hw' : Spec.Ts24501.registrationRequest.wire = some w := by
+    unfold Props.C09.wireOf at hw
+    have : Gen.Nas.layout_RegistrationRequest.name = "RegistrationRequest" := rfl
+    rw [this, table_registrationRequest] at hw
+    exact hw
+  obtain ⟨pdu, b, hrun, hran, hstep⟩ := C01_step_initial_ue_message P cfg chs s k E plmn hplmn ran nas hr0 hr1 hsetup
+    (by rw [hb1]; rfl) (by rw [hb2]; rfl)
+  refine ⟨nas, b, henc, hrun, ?_⟩
+  rw [hstep]
+  exact onRegistrationRequest_ok P cfg chs s k pdu nas mi.data secCap.data ran w hw' none hparse hran j ch aka hsub hch hvec
+    hnew hnewran hea hia
+
+/-- the judge's protected-NAS handler on an accepted SECURITY MODE COMPLETE whose NAS message container holds a complete
+    Registration Request naming the same subscriber and announcing the selected algorithms -/
+theorem onProtected_securityModeComplete (P : Prims) (cfg : Spec.Amf.Cfg) (s : Spec.Amf.St) (k : Nat) (u : Spec.Amf.UeSt)
+    (nas smc rr suci cap : Bytes) (hsht : Spec.Amf.byteAt nas 1 = 4) (hreg : u.reg = .smcSent)
+    (hrul : Spec.Amf.receiveUl P u true [4] nas = .ok (smc, 0))
+    (hb0 : Spec.Amf.byteAt smc 0 = 0x7E) (hb1 : Spec.Amf.byteAt smc 1 = 0) (hb2 : Spec.Amf.byteAt smc 2 = 0x5E)
+    (w : Spec.Ts24501.Wire) (hw : Spec.Ts24501.securityModeComplete.wire = some w)
+    (hparse : Spec.Ts24501.parse w smc = some (Spec.Ts24501.Intended.securityModeComplete (some rr)))
+    (w2 : Spec.Ts24501.Wire) (hw2 : Spec.Ts24501.registrationRequest.wire = some w2) (o10 : Option Bytes)
+    (hparse2 : Spec.Ts24501.parse w2 rr = some (Spec.Ts24501.Intended.registrationRequest 1 suci none (some cap) o10 none none))
+    (hsuci : Spec.Amf.suciIs cfg u.j suci = true)
+    (hea : Spec.Identity.eaSupported cap Spec.Amf.selectedEa = true) (hia : Spec.Identity.iaSupported cap Spec.Amf.selectedIa = true) :
+    Spec.Amf.onProtectedUplink P cfg s k u false nas =
+      s.setUe { Spec.Amf.accepted u 4 0 with reg := .ctxSetup false false } := by
+  have hj : (Spec.Amf.accepted u 4 0).j = u.j := by simp [Spec.Amf.accepted, Spec.NasSecurity.newContext]
+  have hopt : Spec.Amf.optIE (Spec.Ts24501.Intended.registrationRequest 1 suci none (some cap) o10 none none) 0x2E = some cap := by
+    cases o10 <;> simp [Spec.Amf.optIE, Spec.Ts24501.Intended.registrationRequest, Spec.Ts24501.Intended.present]
+  have hcont : Spec.Amf.optIE (Spec.Ts24501.Intended.securityModeComplete (some rr)) 0x71 = some rr := by
+    simp [Spec.Amf.optIE, Spec.Ts24501.Intended.securityModeComplete, Spec.Ts24501.Intended.present]
+  have hm4 : (Spec.Ts24501.Intended.registrationRequest 1 suci none (some cap) o10 none none).mand[4]?.getD [] = suci := by
+    simp [Spec.Ts24501.Intended.registrationRequest]
+  unfold Spec.Amf.onProtectedUplink
+  simp only [hsht, hreg, beq_self_eq_true, if_true, hrul, hb0, hb1, hb2]
+  simp only [Spec.Amf.parseNas, hw, hw2, Option.bind_some, hparse, hcont, hparse2, hm4, hopt, hj, hsuci, hea, hia]
+  simp
+
+open Stgutg.Proofs.BuildersJudge in
+/-- **C01_step_security_mode_complete.** UL4 complete, given that the SUCI names the UE's subscriber in the reference AMF's
+    arithmetic (`hsuci`, as in `C01_step_registration_request`) and that the complete Registration Request fits the NAS message
+    container (`hrr`: below 64 KiB — it is 3 + 1 + 2 + |SUCI| + 3 + 2 + |capability| octets): the SECURITY MODE COMPLETE the
+    emulator builds (IMEISV, NAS message container = the Registration Request with the 5GMM capability), protected by
+    `EncodeNasPduWithSecurity(ue, smc, 4, true, true)` under the keys of the network's vector, sent in UPLINK NAS TRANSPORT with
+    the assigned identifiers by a UE in state "security mode command sent": the judge's `step` raises NO clause — NGAP, header
+    type 4, NAS COUNT 0, MAC, SECURITY MODE COMPLETE parses, the container parses as a Registration Request naming the same
+    subscriber and announcing the selected algorithms — and takes the new context into use (COUNT 0 accepted). -/
+theorem C01_step_security_mode_complete (P : Prims) (hP : PrimsOk P) (cfg : Spec.Amf.Cfg) (chs : List Spec.Amf.Choice)
+    (s : Spec.Amf.St) (k : Nat) (E : Model.Convert.Ext) (plmn : Bytes) (hplmn : plmn.length = 3) (ran : Int)
+    (hr0 : 0 ≤ ran) (hr1 : ran < 2 ^ 32)
+    (u : Spec.Amf.UeSt) (hu : s.ues.find? (·.ran == ran) = some u) (ha1 : u.ch.amfUeNgapId < 2 ^ 40)
+    (sec : UeSec) (hin : InStep sec u) (hreg : u.reg = .smcSent) (mi secCap : Nas.Val)
+    (hmi : mi.iei = 0 ∧ mi.len = mi.data.length ∧ mi.data.length < 65536)
+    (hsc : secCap.iei = 0x2E ∧ secCap.len = secCap.data.length ∧ secCap.data.length < 256)
+    (hea : Spec.Identity.eaSupported secCap.data Spec.Amf.selectedEa = true)
+    (hia : Spec.Identity.iaSupported secCap.data Spec.Amf.selectedIa = true)
+    (hsuci : Spec.Amf.suciIs cfg u.j mi.data = true)
+    (hrr : ∀ rr, Nas.Ctor.encodeWith Gen.Nas.layout_RegistrationRequest
+      (Nas.Ctor.registrationRequest 1 mi none (some secCap) (some cap5GMMVal) none none) = .ok rr → rr.length < 65536) :
+    ∃ rr smc o1 b,
+      Nas.Ctor.encodeWith Gen.Nas.layout_RegistrationRequest
+        (Nas.Ctor.registrationRequest 1 mi none (some secCap) (some cap5GMMVal) none none) = .ok rr ∧
+      Nas.Ctor.encodeWith Gen.Nas.layout_SecurityModeComplete (Nas.Ctor.securityModeComplete (some rr)) = .ok smc ∧
+      (Model.NasProtect.encodeNasPduWithSecurity P sec smc 4 true true).2 = .ok o1 ∧
+      Wrapper.run E .GetUplinkNASTransport plmn [.int u.ch.amfUeNgapId, .int ran, .octs o1] = .ok (.ok b) ∧
+      Spec.Amf.step P cfg chs s k b = s.setUe { Spec.Amf.accepted u 4 0 with reg := .ctxSetup false false } ∧
+      InStep (Model.NasProtect.encodeNasPduWithSecurity P sec smc 4 true true).1 u ∧
+      cval (Model.NasProtect.encodeNasPduWithSecurity P sec smc 4 true true).1.ulCount = 1 := by
+  obtain ⟨w2, rr, hw2, henc2, hparse2⟩ := Props.C09.C09_ctor_registrationRequest 1 mi none (some secCap) (some cap5GMMVal) none none
+    (by decide) hmi (by intro x hx; cases hx) (by intro x hx; cases hx; exact hsc)
+    (by intro x hx; cases hx) (by intro x hx; cases hx; decide) (by intro c hc; cases hc)
+  obtain ⟨w, smc, hw, henc, hparse⟩ := Props.C09.C09_ctor_securityModeComplete (some rr) (by intro c hc; cases hc; exact hrr rr henc2)
+  have hhead : w.mand.take 3 = [.v 1, .v 1, .v 1] := by
+    have := wire_heads.2
+    rw [hw] at this
+    simpa using this
+  obtain ⟨hb0, hb1, hb2⟩ := parse_header' w smc _ hhead hparse 0x7E 0x00 0x5E _ rfl
+  have hw' : Spec.Ts24501.securityModeComplete.wire = some w := by
+    unfold Props.C09.wireOf at hw
+    have : Gen.Nas.layout_SecurityModeComplete.name = "SecurityModeComplete" := rfl
+    rw [this, table_securityModeComplete] at hw
+    exact hw
+  have hw2' : Spec.Ts24501.registrationRequest.wire = some w2 := by
+    unfold Props.C09.wireOf at hw2
+    have : Gen.Nas.layout_RegistrationRequest.name = "RegistrationRequest" := rfl
+    rw [this, table_registrationRequest] at hw2
+    exact hw2
+  obtain ⟨o1, ho1, a1, a6, hrecv, hin1, hc1⟩ := protected_step P hP sec u hin smc 4 true rfl
+  simp only [if_true] at a6 hrecv hc1
+  have ha1' : Spec.Amf.byteAt o1 1 = 4 := a1
+  have hrul : Spec.Amf.receiveUl P u true [4] o1 = .ok (smc, 0) :=
+    receiveUl_of_receive P u true [4] o1 smc 0 (by rw [ha1']; rfl) (by rw [ha1']; rfl) (by rw [ha1']; rfl) hrecv
+  obtain ⟨b, hrun, hstep⟩ := C01_step_uplink_nas_transport P cfg chs s k E plmn hplmn ran o1 hr0 hr1 u hu ha1
+  refine ⟨rr, smc, o1, b, henc2, henc, ho1, hrun, ?_, hin1, hc1.trans (by decide)⟩
+  rw [hstep, ha1']
+  simp only [show ((4 : Nat) % 16 == 0) = false from rfl, Bool.false_eq_true, if_false]
+  exact onProtected_securityModeComplete P cfg s k u o1 smc rr mi.data secCap.data ha1' hreg hrul hb0 hb1 hb2 w hw' hparse
+    w2 hw2' _ hparse2 hsuci hea hia
+
+/-! ### the whole uplink script of NG Setup + one registration, judged -/
+
+/-- a step that raises no clause is simply taken (the attribution of clauses to C01 / C02 has nothing to attribute) -/
+theorem run_clean_step (P : Prims) (life : Bool) (cfg : Spec.Amf.Cfg) (chs : List Spec.Amf.Choice) (s : Spec.Amf.St) (k : Nat)
+    (ul : Bytes) (rest : List Bytes) (hs : s.fails = []) (hs' : (Spec.Amf.step P cfg chs s k ul).fails = []) :
+    Spec.Amf.run P life cfg chs s k (ul :: rest) = Spec.Amf.run P life cfg chs (Spec.Amf.step P cfg chs s k ul) (k + 1) rest := by
+  conv => lhs; unfold Spec.Amf.run
+  generalize Spec.Amf.step P cfg chs s k ul = s' at hs' ⊢
+  cases s'
+  simp only at hs'
+  subst hs'
+  simp only [hs]
+  cases Spec.Amf.registrationPhase s ul <;> simp
+
+/-- the judge's UE state of the conversation, after each accepted message -/
+def convUe (ran : Int) (ch : Spec.Amf.Choice) (aka : Spec.Ts33501A.Aka) (reg : Spec.Amf.Reg) (last : Option Nat) (used : List Nat) :
+    Spec.Amf.UeSt := { j := 0, ran := ran, ch := ch, aka := aka, reg := reg, last := last, used := used }
+
+def convSt (u : Spec.Amf.UeSt) : Spec.Amf.St := { ngSetup := true, ues := [u] }
+
+theorem convSt_find (u : Spec.Amf.UeSt) : (convSt u).ues.find? (·.ran == u.ran) = some u := by
+  simp [convSt]
+
+theorem convSt_setUe (u u' : Spec.Amf.UeSt) (hj : u'.j = u.j) : (convSt u).setUe u' = convSt u' := by
+  simp [convSt, Spec.Amf.St.setUe, hj]
+
+open Stgutg.Proofs.BuildersRoles in
+/-- **C01_registration_script_accepted.** The judge accepts the whole uplink script of NG Setup + one registration, for ALL
+    configurations and AMF choices in the stated ranges (primitives AES / CMAC / CTR are parameters): the six messages are
+    what the emulator's wrappers return for
+      UL1 `GetNGSetupRequest(gnbId, plmn, bitlength, name)`,
+      UL2 `GetInitialUEMessage(ran, RegistrationRequest(SUCI, capability), "")`,
+      UL3 `GetUplinkNASTransport(amf, ran, AuthenticationResponse(RES*))` with RES* = the vector's XRES* (`C01_res_star`),
+      UL4 `GetUplinkNASTransport(amf, ran, protect(SecurityModeComplete(RegistrationRequest + 5GMM capability), 4, new context))`,
+      UL5 `GetInitialContextSetupResponse(amf, ran)`,
+      UL6 `GetUplinkNASTransport(amf, ran, protect(RegistrationComplete, 2))` under the security state UL4 left,
+    with `amf` the AMF-UE-NGAP-ID of the AMF's choice (any value below 2^40), `TestPlmn` = the announced PLMN from UL2 on.
+    `Spec.Amf.judge … = accept`: every message decodes as the TS 38.413 message expected in the UE's state with its mandatory
+    IEs and the assigned identifiers, the PLMN is the configured one, the NAS messages parse, the capability announces the
+    selected algorithms, RES* = XRES*, header types 4 then 2, MACs valid, NAS COUNT 0 then 1, and the registration completes.
+    Hypotheses that stand for parts not threaded: `hsub` (the reference AMF identifies subscriber 0 from the SUCI, in its own
+    decimal arithmetic), `hrr` (the complete Registration Request fits a NAS message container), `hin` (the UE context holds
+    the keys of the network's vector: `C01_res_star`), and that the emulator makes exactly these calls (its reading of the
+    downlink messages). -/
+theorem C01_registration_script_accepted (P : Prims) (hP : PrimsOk P) (cfg : Spec.Amf.Cfg) (chs : List Spec.Amf.Choice)
+    (E : Model.Convert.Ext) (plmn0 g m name : Bytes) (bl : Int)
+    (hm : m.length = 3) (h22 : 22 ≤ bl) (h32 : bl ≤ 32) (hg : g.length = (bl.toNat + 7) / 8)
+    (hc : Canonical g bl.toNat) (hname : 1 ≤ name.length) (hcfg : Spec.Amf.plmnOf cfg = some m)
+    (hone : Spec.Amf.subscribers cfg = 1)
+    (ran : Int) (hr0 : 0 ≤ ran) (hr1 : ran < 2 ^ 32) (mi secCap : Nas.Val)
+    (hmi : mi.iei = 0 ∧ mi.len = mi.data.length ∧ mi.data.length < 65536)
+    (hsc : secCap.iei = 0x2E ∧ secCap.len = secCap.data.length ∧ secCap.data.length < 256)
+    (hea : Spec.Identity.eaSupported secCap.data Spec.Amf.selectedEa = true)
+    (hia : Spec.Identity.iaSupported secCap.data Spec.Amf.selectedIa = true)
+    (ch : Spec.Amf.Choice) (aka : Spec.Ts33501A.Aka) (hsub : Spec.Amf.subscriberOf cfg mi.data = some 0)
+    (hch : chs[0]? = some ch) (hvec : Spec.Amf.vector P cfg 0 ch = some aka)
+    (hamf : ch.amfUeNgapId < 2 ^ 40) (hres : aka.resStar.length = 16)
+    (sec : UeSec) (hin : InStep sec (convUe ran ch aka .authSent none []))
+    (hrr : ∀ rr, Nas.Ctor.encodeWith Gen.Nas.layout_RegistrationRequest
+      (Nas.Ctor.registrationRequest 1 mi none (some secCap) (some cap5GMMVal) none none) = .ok rr → rr.length < 65536) :
+    ∃ b1 nas2 b2 nas3 b3 rr smc o1 b4 b5 rc o2 b6,
+      Wrapper.run E .GetNGSetupRequest plmn0 [.octs g, .octs m, .int bl, .str name] = .ok (.ok b1) ∧
+      Nas.Ctor.encodeWith Gen.Nas.layout_RegistrationRequest
+        (Nas.Ctor.registrationRequest 1 mi none (some secCap) none none none) = .ok nas2 ∧
+      Wrapper.run E .GetInitialUEMessage m [.int ran, .octs nas2, .str []] = .ok (.ok b2) ∧
+      Nas.Ctor.encodeWith Gen.Nas.layout_AuthenticationResponse (Nas.Ctor.authenticationResponse aka.resStar []) = .ok nas3 ∧
+      Wrapper.run E .GetUplinkNASTransport m [.int ch.amfUeNgapId, .int ran, .octs nas3] = .ok (.ok b3) ∧
+      Nas.Ctor.encodeWith Gen.Nas.layout_RegistrationRequest
+        (Nas.Ctor.registrationRequest 1 mi none (some secCap) (some cap5GMMVal) none none) = .ok rr ∧
+      Nas.Ctor.encodeWith Gen.Nas.layout_SecurityModeComplete (Nas.Ctor.securityModeComplete (some rr)) = .ok smc ∧
+      (Model.NasProtect.encodeNasPduWithSecurity P sec smc 4 true true).2 = .ok o1 ∧
+      Wrapper.run E .GetUplinkNASTransport m [.int ch.amfUeNgapId, .int ran, .octs o1] = .ok (.ok b4) ∧
+      Wrapper.run E .GetInitialContextSetupResponse m [.int ch.amfUeNgapId, .int ran] = .ok (.ok b5) ∧
+      Nas.Ctor.encodeWith Gen.Nas.layout_RegistrationComplete (Nas.Ctor.registrationComplete none) = .ok rc ∧
+      (Model.NasProtect.encodeNasPduWithSecurity P (Model.NasProtect.encodeNasPduWithSecurity P sec smc 4 true true).1 rc 2 true false).2
+        = .ok o2 ∧
+      Wrapper.run E .GetUplinkNASTransport m [.int ch.amfUeNgapId, .int ran, .octs o2] = .ok (.ok b6) ∧
+      Spec.Amf.judge P false cfg chs [b1, b2, b3, b4, b5, b6] none true = .accept := by
+  have hsuci : Spec.Amf.suciIs cfg 0 mi.data = true := by
+    have := List.find?_some hsub
+    exact this
+  -- UL1
+  obtain ⟨b1, hrun1, hstep1⟩ := C01_step_ng_setup_request P cfg chs {} 0 E plmn0 g m name bl hm h22 h32 hg hc hname hcfg rfl
+  -- UL2
+  obtain ⟨nas2, b2, henc2, hrun2, hstep2⟩ := C01_step_registration_request P cfg chs { ({} : Spec.Amf.St) with ngSetup := true } 1
+    E m hm ran hr0 hr1 rfl mi secCap hmi hsc hea hia 0 ch aka hsub hch hvec rfl rfl
+  have hstep2' : Spec.Amf.step P cfg chs { ({} : Spec.Amf.St) with ngSetup := true } 1 b2 =
+      convSt (convUe ran ch aka .authSent none []) := hstep2
+  -- UL3
+  obtain ⟨nas3, b3, henc3, hrun3, hstep3⟩ := C01_step_authentication_response P cfg chs (convSt (convUe ran ch aka .authSent none [])) 2
+    E m hm ran hr0 hr1 (convUe ran ch aka .authSent none []) (convSt_find _) hamf aka.resStar hres rfl rfl
+  have hstep3' : Spec.Amf.step P cfg chs (convSt (convUe ran ch aka .authSent none [])) 2 b3 =
+      convSt (convUe ran ch aka .smcSent none []) := by
+    rw [hstep3]; exact convSt_setUe _ _ rfl
+  -- UL4
+  obtain ⟨rr, smc, o1, b4, hencrr, hencsmc, ho1, hrun4, hstep4, hin1, hcnt1⟩ := C01_step_security_mode_complete P hP cfg chs
+    (convSt (convUe ran ch aka .smcSent none [])) 3 E m hm ran hr0 hr1 (convUe ran ch aka .smcSent none []) (convSt_find _) hamf
+    sec ⟨hin.1, hin.2⟩ rfl mi secCap hmi hsc hea hia hsuci hrr
+  have hstep4' : Spec.Amf.step P cfg chs (convSt (convUe ran ch aka .smcSent none [])) 3 b4 =
+      convSt (convUe ran ch aka (.ctxSetup false false) (some 0) [0]) := by
+    rw [hstep4]; exact convSt_setUe _ _ rfl
+  -- UL5
+  obtain ⟨b5, hrun5, hstep5⟩ := C01_step_initial_context_setup_response P cfg chs
+    (convSt (convUe ran ch aka (.ctxSetup false false) (some 0) [0])) 4 E m hm ran hr0 hr1
+    (convUe ran ch aka (.ctxSetup false false) (some 0) [0]) (convSt_find _) hamf rfl false rfl
+  have hstep5' : Spec.Amf.step P cfg chs (convSt (convUe ran ch aka (.ctxSetup false false) (some 0) [0])) 4 b5 =
+      convSt (convUe ran ch aka (.ctxSetup true false) (some 0) [0]) := by
+    rw [hstep5]; exact convSt_setUe _ _ rfl
+  -- UL6
+  obtain ⟨rc, o2, b6, hencrc, ho2, hrun6, hstep6⟩ := C01_step_registration_complete P hP cfg chs
+    (convSt (convUe ran ch aka (.ctxSetup true false) (some 0) [0])) 5 E m hm ran hr0 hr1
+    (convUe ran ch aka (.ctxSetup true false) (some 0) [0]) (convSt_find _) hamf
+    (Model.NasProtect.encodeNasPduWithSecurity P sec smc 4 true true).1 ⟨hin1.1, hin1.2⟩ 0 rfl hcnt1 rfl true false rfl
+  have hstep6' : Spec.Amf.step P cfg chs (convSt (convUe ran ch aka (.ctxSetup true false) (some 0) [0])) 5 b6 =
+      convSt (convUe ran ch aka .registered (some 1) [1, 0]) := by
+    rw [hstep6]; exact convSt_setUe _ _ rfl
+  refine ⟨b1, nas2, b2, nas3, b3, rr, smc, o1, b4, b5, rc, o2, b6, hrun1, henc2, hrun2, henc3, hrun3, hencrr, hencsmc, ho1, hrun4,
+    hrun5, hencrc, ho2, hrun6, ?_⟩
+  unfold Spec.Amf.judge Spec.Amf.clauses
+  rw [run_clean_step P false cfg chs {} 0 b1 _ rfl (by rw [hstep1]), hstep1,
+    run_clean_step P false cfg chs _ 1 b2 _ rfl (by rw [hstep2']; rfl), hstep2',
+    run_clean_step P false cfg chs _ 2 b3 _ rfl (by rw [hstep3']; rfl), hstep3',
+    run_clean_step P false cfg chs _ 3 b4 _ rfl (by rw [hstep4']; rfl), hstep4',
+    run_clean_step P false cfg chs _ 4 b5 _ rfl (by rw [hstep5']; rfl), hstep5',
+    run_clean_step P false cfg chs _ 5 b6 _ rfl (by rw [hstep6']; rfl), hstep6']
+  unfold Spec.Amf.run
+  simp [Spec.Amf.finish, convSt, convUe, hone, Spec.Amf.isRegisteredOrLater]
+
+open Stgutg.Proofs.UeIdentity Stgutg.Proofs.EmulatorSubscriber in
+/-- **C01_subscriber_identified.** The reference AMF attributes the SUCI of the emulator's UE `j` to subscriber `j`, for every
+    decimal IMSI configuration (MCC = first 3 digits, MNC = next 2 or 3) whose MSIN digits accommodate the configured
+    population: the emulator's `%0*d` of IMSI + j and the judge's digit arithmetic agree, and distinct UEs have distinct MSINs.
+    The SUCI buffer has at most 8 + |IMSI| octets. -/
+theorem C01_subscriber_identified (scfg : Spec.Amf.Cfg) (h : DecimalImsi scfg.imsi) {m : Nat} (hm : m = 2 ∨ m = 3)
+    (hmcc : scfg.mcc = scfg.imsi.take 3) (hmnc : scfg.mnc = (scfg.imsi.drop 3).take m) (hlen : 3 + m < scfg.imsi.length)
+    (hfit : MsinFits scfg.imsi (3 + m) (Spec.Amf.subscribers scfg)) {j : Nat} (hj : j < Spec.Amf.subscribers scfg)
+    (k opc op : Bytes) :
+    ∃ buf, Model.Suci.encodeSuci (Model.Suci.trimImsiPrefix (Model.UeIdentity.createUE scfg.imsi (j : Int) k opc op).supi) (m : Int)
+        = .ok buf ∧ buf.length ≤ 8 + scfg.imsi.length ∧ Spec.Amf.subscriberOf scfg buf = some j := by
+  obtain ⟨buf, hb, hdec⟩ := suci_of_created_ue h hm hlen hfit hj k opc op
+  exact ⟨buf, hb, suci_of_created_ue_short h hm hlen hfit hj k opc op buf hb,
+    subscriberOf_eq scfg h hmcc hmnc hlen hfit hj buf hdec⟩
+
+/-- the UE security capability IE `RegisterUE` passes to the constructors -/
+theorem secCapVal_shape (cfg : Cfg) (i : Int) :
+    (secCapVal (createUE cfg i)).iei = 0x2E ∧ (secCapVal (createUE cfg i)).len = (secCapVal (createUE cfg i)).data.length ∧
+    (secCapVal (createUE cfg i)).data.length < 256 := ⟨rfl, rfl, by show (2 : Nat) < 256; omega⟩
+
+open Stgutg.Proofs.EmulatorSubscriber in
+/-- the complete Registration Request (with the 5GMM capability) is short: it fits the NAS message container -/
+theorem registrationRequest_short (mi secCap : Nas.Val)
+    (hmi : mi.iei = 0 ∧ mi.len = mi.data.length ∧ mi.data.length < 65536)
+    (hsc : secCap.iei = 0x2E ∧ secCap.len = secCap.data.length ∧ secCap.data.length < 256)
+    (hshort : mi.data.length ≤ 26) (rr : Bytes)
+    (hrr : Nas.Ctor.encodeWith Gen.Nas.layout_RegistrationRequest
+      (Nas.Ctor.registrationRequest 1 mi none (some secCap) (some cap5GMMVal) none none) = .ok rr) : rr.length < 65536 := by
+  obtain ⟨w, rr', _, henc, hparse⟩ := Props.C09.C09_ctor_registrationRequest 1 mi none (some secCap) (some cap5GMMVal) none none
+    (by decide) hmi (by intro x hx; cases hx) (by intro x hx; cases hx; exact hsc)
+    (by intro x hx; cases hx) (by intro x hx; cases hx; decide) (by intro c hc; cases hc)
+  have henc' : Nas.Ctor.encodeWith Gen.Nas.layout_RegistrationRequest
+      (Nas.Ctor.registrationRequest 1 mi none (some secCap) (some cap5GMMVal) none none) = .ok rr' := henc
+  rw [hrr] at henc'
+  cases henc'
+  have := parse_length w rr _ hparse
+  simp [mandBound, optBound, Spec.Ts24501.Intended.registrationRequest, Spec.Ts24501.Intended.present,
+    Spec.Ts24501.Intended.halves, cap5GMMVal] at this
+  omega
+
+open Stgutg.Proofs.BuildersRoles Stgutg.Proofs.UeIdentity in
+/-- **C01_registration_accepted_for_config.** `C01_registration_script_accepted` with the SUCI and the UE security capability
+    the emulator really builds for its first UE (`CreateUE(imsi, 0, …)`, `EncodeSuci`, `GetUESecurityCapability`) and the
+    judge's subscriber identification PROVED: for every decimal IMSI configuration (MCC 3 digits, MNC 2 or 3 digits, at least
+    one MSIN digit, at most 18 digits — what `Atoi` reads —, one configured subscriber), every gNB id of 22..32 bits, name,
+    RAN-UE-NGAP-ID below 2^32, and every choice of the AMF (RAND, SQN, AMF field, AMF-UE-NGAP-ID below 2^40 — through `aka` and
+    `ch`), the reference AMF ACCEPTS the six uplink messages of NG Setup + registration. Remaining hypotheses: `hin` (the UE
+    context holds the keys of the network's vector when Security Mode Complete is protected: `C01_res_star`), `hres` (XRES* has
+    16 octets), and that the emulator makes exactly these calls (its reading of the downlink messages is not threaded). -/
+theorem C01_registration_accepted_for_config (P : Prims) (hP : PrimsOk P) (cfg : Cfg) (scfg : Spec.Amf.Cfg)
+    (chs : List Spec.Amf.Choice) (E : Model.Convert.Ext) (plmn0 g m name : Bytes) (bl : Int)
+    (hm : m.length = 3) (h22 : 22 ≤ bl) (h32 : bl ≤ 32) (hg : g.length = (bl.toNat + 7) / 8)
+    (hc : Canonical g bl.toNat) (hname : 1 ≤ name.length) (hcfg : Spec.Amf.plmnOf scfg = some m)
+    (himsi : scfg.imsi = cfg.imsi) (hd : DecimalImsi cfg.imsi) {w : Nat} (hw : w = 2 ∨ w = 3) (hmncl : cfg.mnc.length = w)
+    (hmcc : scfg.mcc = cfg.imsi.take 3) (hmnc : scfg.mnc = (cfg.imsi.drop 3).take w) (hlen : 3 + w < cfg.imsi.length)
+    (hfit : MsinFits cfg.imsi (3 + w) 1) (hone : Spec.Amf.subscribers scfg = 1)
+    (ran : Int) (hr0 : 0 ≤ ran) (hr1 : ran < 2 ^ 32)
+    (ch : Spec.Amf.Choice) (aka : Spec.Ts33501A.Aka) (hch : chs[0]? = some ch) (hvec : Spec.Amf.vector P scfg 0 ch = some aka)
+    (hamf : ch.amfUeNgapId < 2 ^ 40) (hres : aka.resStar.length = 16)
+    (sec : UeSec) (hin : InStep sec (convUe ran ch aka .authSent none [])) :
+    ∃ suci b1 nas2 b2 nas3 b3 rr smc o1 b4 b5 rc o2 b6,
+      Model.Suci.encodeSuci (Model.Suci.trimImsiPrefix (createUE cfg 0).ctx.supi) cfg.mnc.length = .ok suci ∧
+      Wrapper.run E .GetNGSetupRequest plmn0 [.octs g, .octs m, .int bl, .str name] = .ok (.ok b1) ∧
+      Nas.Ctor.encodeWith Gen.Nas.layout_RegistrationRequest
+        (Nas.Ctor.registrationRequest 1 (suciVal suci) none (some (secCapVal (createUE cfg 0))) none none none) = .ok nas2 ∧
+      Wrapper.run E .GetInitialUEMessage m [.int ran, .octs nas2, .str []] = .ok (.ok b2) ∧
+      Nas.Ctor.encodeWith Gen.Nas.layout_AuthenticationResponse (Nas.Ctor.authenticationResponse aka.resStar []) = .ok nas3 ∧
+      Wrapper.run E .GetUplinkNASTransport m [.int ch.amfUeNgapId, .int ran, .octs nas3] = .ok (.ok b3) ∧
+      Nas.Ctor.encodeWith Gen.Nas.layout_RegistrationRequest
+        (Nas.Ctor.registrationRequest 1 (suciVal suci) none (some (secCapVal (createUE cfg 0))) (some cap5GMMVal) none none) = .ok rr ∧
+      Nas.Ctor.encodeWith Gen.Nas.layout_SecurityModeComplete (Nas.Ctor.securityModeComplete (some rr)) = .ok smc ∧
+      (Model.NasProtect.encodeNasPduWithSecurity P sec smc 4 true true).2 = .ok o1 ∧
+      Wrapper.run E .GetUplinkNASTransport m [.int ch.amfUeNgapId, .int ran, .octs o1] = .ok (.ok b4) ∧
+      Wrapper.run E .GetInitialContextSetupResponse m [.int ch.amfUeNgapId, .int ran] = .ok (.ok b5) ∧
+      Nas.Ctor.encodeWith Gen.Nas.layout_RegistrationComplete (Nas.Ctor.registrationComplete none) = .ok rc ∧
+      (Model.NasProtect.encodeNasPduWithSecurity P (Model.NasProtect.encodeNasPduWithSecurity P sec smc 4 true true).1 rc 2 true false).2
+        = .ok o2 ∧
+      Wrapper.run E .GetUplinkNASTransport m [.int ch.amfUeNgapId, .int ran, .octs o2] = .ok (.ok b6) ∧
+      Spec.Amf.judge P false scfg chs [b1, b2, b3, b4, b5, b6] none true = .accept := by
+  have hd' : DecimalImsi scfg.imsi := by rw [himsi]; exact hd
+  obtain ⟨suci, hsuci, hslen, hsub⟩ := C01_subscriber_identified scfg hd' hw (by rw [himsi]; exact hmcc) (by rw [himsi]; exact hmnc)
+    (by rw [himsi]; exact hlen) (by rw [himsi, hone]; exact hfit) (j := 0) (by rw [hone]; omega) cfg.k cfg.opc cfg.op
+  have hsuci' : Model.Suci.encodeSuci (Model.Suci.trimImsiPrefix (createUE cfg 0).ctx.supi) cfg.mnc.length = .ok suci := by
+    rw [hmncl]
+    have : (createUE cfg 0).ctx = Model.UeIdentity.createUE scfg.imsi ((0 : Nat) : Int) cfg.k cfg.opc cfg.op := by
+      rw [himsi]; rfl
+    rw [this]
+    exact hsuci
+  have h18 := hd.short
+  have hsl : suci.length < 65536 := by rw [himsi] at hslen; omega
+  have hmi : (suciVal suci).iei = 0 ∧ (suciVal suci).len = (suciVal suci).data.length ∧ (suciVal suci).data.length < 65536 :=
+    ⟨rfl, by show suci.length % 65536 = suci.length; omega, hsl⟩
+  have hcapS := C01_security_capability cfg 0
+  have hrr : ∀ rr, Nas.Ctor.encodeWith Gen.Nas.layout_RegistrationRequest
+      (Nas.Ctor.registrationRequest 1 (suciVal suci) none (some (secCapVal (createUE cfg 0))) (some cap5GMMVal) none none) = .ok rr →
+      rr.length < 65536 := by
+    intro rr hrr
+    exact registrationRequest_short (suciVal suci) (secCapVal (createUE cfg 0)) hmi (secCapVal_shape cfg 0) (by rw [himsi] at hslen; show suci.length ≤ 26; omega) rr hrr
+  obtain ⟨b1, nas2, b2, nas3, b3, rr, smc, o1, b4, b5, rc, o2, b6, h1, h2, h3, h4, h5, h6, h7, h8, h9, h10, h11, h12, h13, h14⟩ :=
+    C01_registration_script_accepted P hP scfg chs E plmn0 g m name bl hm h22 h32 hg hc hname hcfg hone ran hr0 hr1
+      (suciVal suci) (secCapVal (createUE cfg 0)) hmi (secCapVal_shape cfg 0) hcapS.1 hcapS.2 ch aka hsub hch hvec hamf hres sec hin hrr
+  exact ⟨suci, b1, nas2, b2, nas3, b3, rr, smc, o1, b4, b5, rc, o2, b6, hsuci', h1, h2, h3, h4, h5, h6, h7, h8, h9, h10, h11, h12, h13, h14⟩
+
+/-- XRES* of the network's vector has 16 octets (HMAC-SHA-256 output of 32 octets, the 128 least significant bits) -/
+theorem vector_resStar_length (P : Prims) (hH : MacLen P.hmac) (cfg : Spec.Amf.Cfg) (j : Nat) (ch : Spec.Amf.Choice)
+    (aka : Spec.Ts33501A.Aka) (hvec : Spec.Amf.vector P cfg j ch = some aka) : aka.resStar.length = 16 := by
+  unfold Spec.Amf.vector at hvec
+  split at hvec
+  · simp only [Option.some.injEq] at hvec
+    subst hvec
+    simp only [Spec.Ts33501A.aka, Spec.Ts33501A.resStar, Spec.Ts33501A.low128, Spec.Ts33501A.kdf, List.length_drop, hH _ _]
+  · cases hvec
+
+/-- **C01_keys_in_step.** The hypothesis `hin` of the two theorems above, from `C01_res_star`: once `RegisterUE` has installed the
+    K_NASenc / K_NASint that `DeriveRESstarAndSetKey` returned, and these are the keys of the network's vector (the conclusion of
+    `C01_res_star`), the UE context of a created UE is in step with the judge's UE state — same keys, the algorithms the AMF
+    selects (5G-EA0, 128-5G-IA2), which are supported ones. -/
+theorem C01_keys_in_step (cfg : Cfg) (i : Int) (knasEnc knasInt : Bytes) (u : Spec.Amf.UeSt)
+    (henc : knasEnc = u.aka.knasEnc) (hint : knasInt = u.aka.knasInt) (ul dl : UInt32) :
+    InStep { (createUE cfg i).sec with knasEnc := knasEnc, knasInt := knasInt, ulCount := ul, dlCount := dl } u := by
+  subst henc hint
+  exact ⟨rfl, .inr rfl, .inl rfl⟩
+
+open Stgutg.Proofs.BuildersRoles Stgutg.Proofs.UeIdentity Stgutg.Proofs.EmulatorRun in
+/-- **C01_accepted_partial.** `C01_accepted_statement` for one registration (`Test_ue_registation` = 1, nothing after it),
+    THROUGH `emulate`: for every decimal-IMSI configuration (MNC of 2 or 3 digits, at least one MSIN digit), gNB id of 22..32
+    bits in ⌈n/8⌉ octets with the unused bits clear, non-empty name, and every choice of the AMF (RAND, SQN, AMF field — via
+    `aka` —, AMF-UE-NGAP-ID below 2^40), the reference AMF ACCEPTS the transcript the emulator model produces
+    (`judge (emulate …).uls … = accept`, the emulator completing).
+    What is assumed instead of proved is collected in `R : RegReads` and `hkeys`, i.e. what the emulator READS:
+      * the five downlink messages are decodable by the library decoder (`hdec*`), the first DOWNLINK NAS TRANSPORT yields,
+        through `GetNasPdu` and `authParams`, an Authentication Request with some AUTN / RAND, and its first IE the
+        AMF-UE-NGAP-ID of the AMF's choice (`hamfid`);
+      * `DeriveRESstarAndSetKey` on that AUTN / RAND returns the RES* and NAS keys of the network's vector (`hkeys`: this is
+        the conclusion of `C01_res_star` when AUTN / RAND are the network's);
+      * `PlainNasDecode` followed by `PlainNasEncode` reproduces the octets of the two NAS constructors that are protected (C08);
+      * the library calls of the exchange return octets (`hrun*`, `henc*`, `ho*` inside `R`: each one is a CONCLUSION of a
+        theorem above — `C01_*_seen`, C09's constructor theorems, `protected_step` — they are restated as the equations that
+        name the octets).
+    So the missing part of `C01_accepted_statement` is exactly a specification of the downlink side (`dl`): that a conformant
+    AMF's messages have these properties, and more than one UE. -/
+theorem C01_accepted_partial (P : Prims) (hP : PrimsOk P) (hH : MacLen P.hmac) (cfg : Cfg) (scfg : Spec.Amf.Cfg)
+    (chs : List Spec.Amf.Choice) (E : Model.Convert.Ext) (d1 d2 d3 d4 d5 : Bytes)
+    -- the configuration
+    (hreg : cfg.reg = 1) (hpdu : cfg.pdu = 0) (hdereg : cfg.dereg = 0) (hone : Spec.Amf.subscribers scfg = 1)
+    (himsi : scfg.imsi = cfg.imsi) (hd : DecimalImsi cfg.imsi) {w : Nat} (hw : w = 2 ∨ w = 3) (hmncl : cfg.mnc.length = w)
+    (hmcc : scfg.mcc = cfg.imsi.take 3) (hmnc : scfg.mnc = (cfg.imsi.drop 3).take w) (hlen : 3 + w < cfg.imsi.length)
+    (hfit : MsinFits cfg.imsi (3 + w) 1)
+    (h22 : 22 ≤ cfg.bitlength) (h32 : cfg.bitlength ≤ 32) (hg : cfg.gnbId.length = (cfg.bitlength + 7) / 8)
+    (hc : Canonical cfg.gnbId cfg.bitlength) (hname : 1 ≤ cfg.name.length)
+    (m : Bytes) (hplmn : Model.Suci.ngSetupPlmn cfg.imsi cfg.mnc.length = .ok m) (hm : m.length = 3)
+    (hcfg : Spec.Amf.plmnOf scfg = some m)
+    -- the AMF's choice and vector
+    (ch : Spec.Amf.Choice) (aka : Spec.Ts33501A.Aka) (hch : chs[0]? = some ch) (hvec : Spec.Amf.vector P scfg 0 ch = some aka)
+    (hamf : ch.amfUeNgapId < 2 ^ 40)
+    -- what the emulator reads and what its library calls return
+    (v1 : Aper.Val) (hdec1 : ngapDecode (d1.take 2048) = .ok v1) (b1 : Bytes)
+    (hrun1 : Wrapper.run E .GetNGSetupRequest [] [.octs cfg.gnbId, .octs m, .int cfg.bitlength, .str cfg.name] = .ok (.ok b1))
+    (suci nas2 b2 nas3 b3 rr smc o1 b4 b5 rc o2 b6 : Bytes) (keys : Model.KeyDerivation.UeKeys) (ue1 : Ue)
+    (R : RegReads P E cfg (createUE cfg 0) m d2 d3 d4 d5 suci nas2 b2 nas3 b3 rr smc o1 b4 b5 rc o2 b6 ch.amfUeNgapId keys ue1)
+    (hue1 : ue1.ctx = (createUE cfg 0).ctx ∧ ue1.sec.cipheringAlg = 0 ∧ ue1.sec.integrityAlg = 2)
+    (hkeys : keys.resStar = aka.resStar ∧ keys.knasEnc = aka.knasEnc ∧ keys.knasInt = aka.knasInt) :
+    Spec.Amf.judge P false scfg chs (emulate P E cfg [d1, d2, d3, d4, d5]).uls none
+      ((emulate P E cfg [d1, d2, d3, d4, d5]).outcome == .completed) = .accept := by
+  obtain ⟨huls, hout⟩ := emulate_run P E cfg d1 d2 d3 d4 d5 hreg hpdu hdereg m b1 v1 hplmn hrun1 hdec1
+    suci nas2 b2 nas3 b3 rr smc o1 b4 b5 rc o2 b6 ch.amfUeNgapId keys ue1 R
+  rw [huls, hout]
+  -- the RAN-UE-NGAP-ID of the created UE
+  have hran : (createUE cfg 0).ctx.ranUeNgapId = (((Model.UeIdentity.decVal cfg.imsi + 0) % 10000 : Nat) : Int) :=
+    createUE_ranId hd 0 (by decide) cfg.k cfg.opc cfg.op
+  have hr0 : 0 ≤ (createUE cfg 0).ctx.ranUeNgapId := by rw [hran]; omega
+  have hr1 : (createUE cfg 0).ctx.ranUeNgapId < 2 ^ 32 := by rw [hran]; omega
+  have hin : InStep (secAfterKeys ue1 keys) (convUe (createUE cfg 0).ctx.ranUeNgapId ch aka .authSent none []) := by
+    refine ⟨?_, ?_⟩
+    · simp [Proofs.NasProtect.ctxOf, Spec.Amf.ctxOf, convUe, hue1.2.1, hue1.2.2, hkeys.2.1, hkeys.2.2,
+        Spec.Amf.selectedIa, Spec.Amf.selectedEa]
+    · exact ⟨.inr hue1.2.2, .inl hue1.2.1⟩
+  obtain ⟨suci', b1', nas2', b2', nas3', b3', rr', smc', o1', b4', b5', rc', o2', b6', e0, e1, e2, e3, e4, e5, e6, e7, e8, e9,
+      e10, e11, e12, e13, hacc⟩ :=
+    C01_registration_accepted_for_config P hP cfg scfg chs E [] cfg.gnbId m cfg.name (cfg.bitlength : Int) hm
+      (by exact_mod_cast h22) (by exact_mod_cast h32) (by simpa using hg) (by simpa using hc) hname hcfg himsi hd hw hmncl hmcc hmnc
+      hlen hfit hone (createUE cfg 0).ctx.ranUeNgapId hr0 hr1 ch aka hch hvec hamf (vector_resStar_length P hH scfg 0 ch aka hvec)
+      (secAfterKeys ue1 keys) hin
+  -- the octets are determined by the equations that name them
+  have hs : suci' = suci := by have := e0.symm.trans R.hsuci; exact Except.ok.inj this
+  subst hs
+  have h1 : b1' = b1 := by have := e1.symm.trans hrun1; exact Except.ok.inj (Except.ok.inj this)
+  subst h1
+  have h2 : nas2' = nas2 := Except.ok.inj (e2.symm.trans R.henc2)
+  subst h2
+  have h3 : b2' = b2 := Except.ok.inj (Except.ok.inj (e3.symm.trans R.hrun2))
+  subst h3
+  have h4 : nas3' = nas3 := by
+    have := R.henc3; rw [hkeys.1] at this
+    exact Except.ok.inj (e4.symm.trans this)
+  subst h4
+  have h5 : b3' = b3 := by
+    have := R.hrun3; rw [hue1.1] at this
+    exact Except.ok.inj (Except.ok.inj (e5.symm.trans this))
+  subst h5
+  have h6 : rr' = rr := Except.ok.inj (e6.symm.trans R.hencrr)
+  subst h6
+  have h7 : smc' = smc := Except.ok.inj (e7.symm.trans R.hencsmc)
+  subst h7
+  have h8 : o1' = o1 := Except.ok.inj (e8.symm.trans R.ho1)
+  subst h8
+  have h9 : b4' = b4 := by
+    have := R.hrun4; rw [hue1.1] at this
+    exact Except.ok.inj (Except.ok.inj (e9.symm.trans this))
+  subst h9
+  have h10 : b5' = b5 := by
+    have := R.hrun5; rw [hue1.1] at this
+    exact Except.ok.inj (Except.ok.inj (e10.symm.trans this))
+  subst h10
+  have h11 : rc' = rc := Except.ok.inj (e11.symm.trans R.hencrc)
+  subst h11
+  have h12 : o2' = o2 := Except.ok.inj (e12.symm.trans R.ho2)
+  subst h12
+  have h13 : b6' = b6 := by
+    have := R.hrun6; rw [hue1.1] at this
+    exact Except.ok.inj (Except.ok.inj (e13.symm.trans this))
+  subst h13
+  exact hacc
+
+open Stgutg.Proofs.BuildersRoles Stgutg.Proofs.UeIdentity Stgutg.Proofs.EmulatorRun in
+/-- **C01_accepted_for_downlink.** `C01_accepted_partial` with every uplink-side hypothesis discharged: the hypotheses are the
+    configuration's well-formedness, the AMF's choice, and the DOWNLINK side alone (`DlReads`: the five downlink messages are
+    decodable; the first DOWNLINK NAS TRANSPORT yields the AMF-UE-NGAP-ID of the choice and an Authentication Request from
+    whose AUTN / RAND `DeriveRESstarAndSetKey` obtains the RES* and NAS keys of the network's vector). C08's re-encoding
+    identity on the two protected constructor outputs is proved (Proofs/EmulatorReencode.lean). Conclusion: the emulator completes and the reference AMF accepts
+    its transcript — every uplink message exists (the builders encode, the constructors encode, the protection succeeds:
+    all proved), is what the judge expects in its state, and the registration completes. -/
+theorem C01_accepted_for_downlink (P : Prims) (hP : PrimsOk P) (hH : MacLen P.hmac) (cfg : Cfg) (scfg : Spec.Amf.Cfg)
+    (chs : List Spec.Amf.Choice) (E : Model.Convert.Ext) (d1 d2 d3 d4 d5 : Bytes)
+    (hreg : cfg.reg = 1) (hpdu : cfg.pdu = 0) (hdereg : cfg.dereg = 0) (hone : Spec.Amf.subscribers scfg = 1)
+    (himsi : scfg.imsi = cfg.imsi) (hd : DecimalImsi cfg.imsi) {w : Nat} (hw : w = 2 ∨ w = 3) (hmncl : cfg.mnc.length = w)
+    (hmcc : scfg.mcc = cfg.imsi.take 3) (hmnc : scfg.mnc = (cfg.imsi.drop 3).take w) (hlen : 3 + w < cfg.imsi.length)
+    (hfit : MsinFits cfg.imsi (3 + w) 1)
+    (h22 : 22 ≤ cfg.bitlength) (h32 : cfg.bitlength ≤ 32) (hg : cfg.gnbId.length = (cfg.bitlength + 7) / 8)
+    (hc : Canonical cfg.gnbId cfg.bitlength) (hname : 1 ≤ cfg.name.length)
+    (m : Bytes) (hplmn : Model.Suci.ngSetupPlmn cfg.imsi cfg.mnc.length = .ok m) (hm : m.length = 3)
+    (hcfg : Spec.Amf.plmnOf scfg = some m)
+    (ch : Spec.Amf.Choice) (aka : Spec.Ts33501A.Aka) (hch : chs[0]? = some ch) (hvec : Spec.Amf.vector P scfg 0 ch = some aka)
+    (hamf : ch.amfUeNgapId < 2 ^ 40)
+    (v1 : Aper.Val) (hdec1 : ngapDecode (d1.take 2048) = .ok v1)
+    (keys : Model.KeyDerivation.UeKeys) (ue1 : Ue)
+    (D : DlReads P cfg (createUE cfg 0) d2 d3 d4 d5 ch.amfUeNgapId keys ue1)
+    (hue1 : ue1.ctx = (createUE cfg 0).ctx ∧ ue1.sec.cipheringAlg = 0 ∧ ue1.sec.integrityAlg = 2)
+    (hkeys : keys.resStar = aka.resStar ∧ keys.knasEnc = aka.knasEnc ∧ keys.knasInt = aka.knasInt) :
+    (emulate P E cfg [d1, d2, d3, d4, d5]).outcome = .completed ∧
+    Spec.Amf.judge P false scfg chs (emulate P E cfg [d1, d2, d3, d4, d5]).uls none
+      ((emulate P E cfg [d1, d2, d3, d4, d5]).outcome == .completed) = .accept := by
+  have hran : (createUE cfg 0).ctx.ranUeNgapId = (((Model.UeIdentity.decVal cfg.imsi + 0) % 10000 : Nat) : Int) :=
+    createUE_ranId hd 0 (by decide) cfg.k cfg.opc cfg.op
+  have hr0 : 0 ≤ (createUE cfg 0).ctx.ranUeNgapId := by rw [hran]; omega
+  have hr1 : (createUE cfg 0).ctx.ranUeNgapId < 2 ^ 32 := by rw [hran]; omega
+  have hin : InStep (secAfterKeys ue1 keys) (convUe (createUE cfg 0).ctx.ranUeNgapId ch aka .authSent none []) := by
+    refine ⟨?_, ?_⟩
+    · simp [Proofs.NasProtect.ctxOf, Spec.Amf.ctxOf, convUe, hue1.2.1, hue1.2.2, hkeys.2.1, hkeys.2.2,
+        Spec.Amf.selectedIa, Spec.Amf.selectedEa]
+    · exact ⟨.inr hue1.2.2, .inl hue1.2.1⟩
+  obtain ⟨suci, b1, nas2, b2, nas3, b3, rr, smc, o1, b4, b5, rc, o2, b6, e0, e1, e2, e3, e4, e5, e6, e7, e8, e9,
+      e10, e11, e12, e13, hacc⟩ :=
+    C01_registration_accepted_for_config P hP cfg scfg chs E [] cfg.gnbId m cfg.name (cfg.bitlength : Int) hm
+      (by exact_mod_cast h22) (by exact_mod_cast h32) (by simpa using hg) (by simpa using hc) hname hcfg himsi hd hw hmncl hmcc hmnc
+      hlen hfit hone (createUE cfg 0).ctx.ranUeNgapId hr0 hr1 ch aka hch hvec hamf (vector_resStar_length P hH scfg 0 ch aka hvec)
+      (secAfterKeys ue1 keys) hin
+  have hrrlen : rr.length < 65536 := by
+    obtain ⟨suci', hs', hslen, _⟩ := C01_subscriber_identified scfg (by rw [himsi]; exact hd) hw (by rw [himsi]; exact hmcc)
+      (by rw [himsi]; exact hmnc) (by rw [himsi]; exact hlen) (by rw [himsi, hone]; exact hfit) (j := 0) (by rw [hone]; omega)
+      cfg.k cfg.opc cfg.op
+    have hs'' : Model.Suci.encodeSuci (Model.Suci.trimImsiPrefix (createUE cfg 0).ctx.supi) cfg.mnc.length = .ok suci' := by
+      rw [hmncl]
+      have : (createUE cfg 0).ctx = Model.UeIdentity.createUE scfg.imsi ((0 : Nat) : Int) cfg.k cfg.opc cfg.op := by
+        rw [himsi]; rfl
+      rw [this]; exact hs'
+    have : suci' = suci := Except.ok.inj (hs''.symm.trans e0)
+    subst this
+    have h18 := hd.short
+    rw [himsi] at hslen
+    exact registrationRequest_short (suciVal suci') (secCapVal (createUE cfg 0))
+      ⟨rfl, by show suci'.length % 65536 = suci'.length; omega, by show suci'.length < 65536; omega⟩ (secCapVal_shape cfg 0)
+      (by show suci'.length ≤ 26; omega) rr e6
+  obtain ⟨pm4, hpd4, hpe4⟩ := Proofs.EmulatorReencode.reenc_smc rr smc hrrlen e7
+  obtain ⟨pm6, hpd6, hpe6⟩ := Proofs.EmulatorReencode.reenc_rc rc e11
+  have R : RegReads P E cfg (createUE cfg 0) m d2 d3 d4 d5 suci nas2 b2 nas3 b3 rr smc o1 b4 b5 rc o2 b6 ch.amfUeNgapId keys ue1 :=
+    { hsuci := e0, henc2 := e2, hrun2 := e3, v2 := D.v2, dnt := D.dnt, hdec2 := D.hdec2, hdnt := D.hdnt, pm := D.pm, hgn := D.hgn,
+      autn := D.autn, rand := D.rand, hauth := D.hauth, hkeys := D.hkeys, hamf := D.hamf,
+      henc3 := by rw [hkeys.1]; exact e4, hrun3 := by rw [hue1.1]; exact e5, v3 := D.v3, hdec3 := D.hdec3,
+      hencrr := e6, hencsmc := e7, pm4 := pm4, hpd4 := hpd4, hpe4 := hpe4, ho1 := e8,
+      hrun4 := by rw [hue1.1]; exact e9, v4 := D.v4, hdec4 := D.hdec4, hrun5 := by rw [hue1.1]; exact e10,
+      hencrc := e11, pm6 := pm6, hpd6 := hpd6, hpe6 := hpe6, ho2 := e12, hrun6 := by rw [hue1.1]; exact e13, hdec5 := D.hdec5 }
+  obtain ⟨huls, hout⟩ := emulate_run P E cfg d1 d2 d3 d4 d5 hreg hpdu hdereg m b1 v1 hplmn e1 hdec1
+    suci nas2 b2 nas3 b3 rr smc o1 b4 b5 rc o2 b6 ch.amfUeNgapId keys ue1 R
+  refine ⟨hout, ?_⟩
+  rw [huls, hout]
+  exact hacc
+
+open Stgutg.Proofs.UeIdentity Stgutg.Proofs.EmulatorRun Stgutg.Proofs.EmulatorSubscriber in
+/-- **C01_keys_of_network_challenge.** The `hkeys` hypothesis of `C01_accepted_for_downlink` from `C01_res_star`: when the
+    Authentication Request the emulator reads carries the AUTN and RAND of the network's choice (what a conformant AMF sends:
+    AUTN = SQN ⊕ AK ‖ AMF ‖ MAC-A for its RAND), then what `DeriveRESstarAndSetKey` returned (`D.hkeys`) is the RES* and the NAS
+    keys of the network's vector — for every K, OPc (hexadecimal, 16 octets, read alike by the code and by the reference AMF),
+    RAND, SQN, AMF field, and IMSI of 5..15 digits. -/
+theorem C01_keys_of_network_challenge (P : Prims) (hE : BlockCipher P.aes) (hH : MacLen P.hmac) (cfg : Cfg) (scfg : Spec.Amf.Cfg)
+    (himsi : scfg.imsi = cfg.imsi) (hd : DecimalImsi cfg.imsi) (h5 : 5 ≤ cfg.imsi.length) (h15 : cfg.imsi.length ≤ 15)
+    (hmccB : scfg.mcc = cfg.mcc) (hmncB : scfg.mnc = cfg.mnc) (hmcc3 : cfg.mcc.length = 3)
+    (hmnc23 : cfg.mnc.length = 2 ∨ cfg.mnc.length = 3)
+    (ch : Spec.Amf.Choice) (aka : Spec.Ts33501A.Aka) (hvec : Spec.Amf.vector P scfg 0 ch = some aka)
+    (k opc : Bytes) (hk : hexDecode cfg.k = some k) (hk' : Spec.Amf.hexText scfg.k = some k) (hk16 : k.length = 16)
+    (hopcne : cfg.opc ≠ []) (hopc : hexDecode cfg.opc = some opc) (hopc' : Spec.Amf.opcOf P scfg = some opc)
+    (hopc16 : opc.length = 16) (hrand : ch.rand.length = 16) (hsqn : ch.sqn.length = 6)
+    (d2 d3 d4 d5 : Bytes) (amf : Int) (keys : Model.KeyDerivation.UeKeys) (ue1 : Ue)
+    (D : DlReads P cfg (createUE cfg 0) d2 d3 d4 d5 amf keys ue1) (hue1 : ue1.ctx = (createUE cfg 0).ctx)
+    (hautn : D.autn = Spec.Ts35206.autn P.aes k opc ch.rand ch.sqn ch.amf) (hrandD : D.rand = ch.rand) :
+    keys.resStar = aka.resStar ∧ keys.knasEnc = aka.knasEnc ∧ keys.knasInt = aka.knasInt := by
+  have hd' : DecimalImsi scfg.imsi := by rw [himsi]; exact hd
+  have hfitall : Model.UeIdentity.decVal cfg.imsi + 0 < 10 ^ cfg.imsi.length := by
+    have := decVal_lt cfg.imsi hd.digits; omega
+  have hsupi : (createUE cfg 0).ctx.supi = Model.UeIdentity.imsiPrefix ++ Model.UeIdentity.decW cfg.imsi.length
+      (Model.UeIdentity.decVal cfg.imsi + 0) := createUE_supi hd 0 hfitall cfg.k cfg.opc cfg.op
+  have hds := supiDigits_eq scfg hd' 0
+  rw [himsi] at hds
+  have hdigs := decW_digits cfg.imsi.length (Model.UeIdentity.decVal cfg.imsi + 0)
+  obtain ⟨keys', hder, e1, _, e3, e4⟩ := C01_res_star P hE hH scfg ch 0 aka
+    { amf := (createUE cfg 0).ctx.amf, k := (createUE cfg 0).ctx.k, opc := (createUE cfg 0).ctx.opc, op := (createUE cfg 0).ctx.op }
+    [0x80, 0x00] k opc (Model.UeIdentity.decW cfg.imsi.length (Model.UeIdentity.decVal cfg.imsi + 0)) _ hvec
+    hk hk' hk16 hopcne hopc hopc' hopc16 (show hexDecode [56, 48, 48, 48] = some [0x80, 0x00] by decide) (by decide) hrand hsqn hds
+    (asc_digitsOf _ hdigs)
+    (by rw [List.all_eq_true]; intro c hc; exact hdigs c hc)
+    (by rw [decW_length]; exact h5) (by rw [decW_length]; exact h15)
+    (by rw [hmccB]; exact hmcc3) (by rw [hmncB]; exact hmnc23)
+  have hD := D.hkeys
+  rw [hue1, hsupi, hautn, hrandD] at hD
+  rw [hmccB, hmncB] at hder
+  have : keys' = keys := Except.ok.inj (hder.symm.trans hD)
+  subst this
+  exact ⟨e1, e3, e4⟩
+
+/-- the hypotheses of `C01_ng_setup_request_seen` are satisfiable: the gNB id 000102 of 22 bits (src/config.yaml), PLMN 02f839 -/
+example : ([0x00, 0xf1, 0x10] : Bytes).length = 3 ∧ ([0, 1, 4] : Bytes).length = ((22 : Int).toNat + 7) / 8 ∧
+    Proofs.BuildersRoles.Canonical [0, 1, 4] (22 : Int).toNat :=
+  ⟨by decide, by decide, by unfold Proofs.BuildersRoles.Canonical; decide⟩
 
 /-- what C01 asks of the model as a whole: for every well-formed configuration and every choice of a conformant AMF
     (`dl` = the downlink messages it sends), the reference AMF judges the model's transcript `accept`. -/
